@@ -43,7 +43,7 @@ Section AssocFacts.
     intros k k' v l Hne. induction l as [|[k2 v2] r IH]; simpl.
     - rewrite eqb_false; auto.
     - destruct (eqb k k2) eqn:E; simpl.
-      + apply eqb_spec in E. subst k2. reflexivity.
+      + apply eqb_spec in E. subst k2. rewrite eqb_false; auto.
       + rewrite IH. reflexivity.
   Qed.
 
@@ -146,7 +146,6 @@ Proof. induction h as [|n r IH]; intros [|j] f; simpl; auto. Qed.
 Lemma nth_upd_other : forall h i j f, i <> j -> nth_error (upd h i f) j = nth_error h j.
 Proof.
   induction h as [|n r IH]; intros [|i] [|j] f H; simpl; auto; try congruence.
-  apply IH. congruence.
 Qed.
 
 Lemma getn_upd_same : forall s i f, getn (upd_state s i f) i = option_map f (getn s i).
@@ -253,7 +252,7 @@ Proof.
   - set (s1 := upd_state s i (fun n => with_members (mput k v (nmembers n)) n)) in *.
     set (s2 := upd_state s1 v (with_parent (Some i))) in *.
     assert (H12 : TP s s2).
-    { eapply TP_trans; [apply (TP_upd_keep s i); intro n; reflexivity | apply TP_upd_keep; intro n; reflexivity]. }
+    { apply TP_trans with s1; [unfold s1 | unfold s2]; apply TP_upd_keep; intro n; reflexivity. }
     destruct (kind_of s v) as [[| | | |]|]; try (inversion H; subst; exact H12).
     eapply TP_trans; [exact H12 | eapply TP_update_target_aliases; eauto].
 Qed.
@@ -285,9 +284,9 @@ Proof.
   destruct a.
   - destruct (mlookup k ms) as [m|].
     + pose proof (TP_replace_prelude s m v) as Hp. destruct (replace_prelude s m v) as [s1 e1]. simpl in Hp.
-      apply Hpre. exact Hp.
-    + apply Hpre. apply TP_refl.
-  - destruct (mlookup k ms); apply Hpre; apply TP_refl.
+      exact (Hpre s1 e1 Hp).
+    + exact (Hpre s None (TP_refl s)).
+  - destruct (mlookup k ms); exact (Hpre s None (TP_refl s)).
 Qed.
 
 Lemma TP_del_value : forall s r p, TP s (fst (del_value s r p)).
@@ -377,4 +376,2166 @@ Theorem self_assignment_rejected : forall s a n, getn s a = Some n -> nkind n = 
 Proof.
   intros s a n Hg Hk. simpl. unfold set_target, kind_of. rewrite Hg. simpl. rewrite Hk.
   rewrite Nat.eqb_refl. reflexivity.
+Qed.
+
+(* ================================================================ C. paths and lookups *)
+
+Definition wfpar (h : list node) : Prop :=
+  forall x n c, nth_error h x = Some n -> nparent n = Some c -> c < x.
+
+(* the fuel the model passes (the heap size) is never exhausted when parents precede children *)
+Lemma pth_stable : forall h, wfpar h -> forall x f, S x <= f -> pth h f x = pth h (S x) x.
+Proof.
+  intros h Hw x. induction x as [x IH] using lt_wf_ind. intros f Hf.
+  destruct f as [|f]; [lia|]. simpl.
+  destruct (nth_error h x) as [n|] eqn:G; auto.
+  destruct (nparent n) as [c|] eqn:P; auto.
+  assert (Hc : c < x) by (eapply Hw; eauto).
+  rewrite (IH c Hc f) by lia. rewrite (IH c Hc x) by lia. reflexivity.
+Qed.
+
+Definition node_path (s : state) (n : node) : pres :=
+  match nparent n with
+  | None => if is_ali (nkind n) then PAttr else POk [nname n]
+  | Some c => match path_of s c with POk pp => POk (pp ++ [nname n]) | e => e end
+  end.
+
+Lemma path_of_unfold : forall s x n, wfpar (heap s) -> getn s x = Some n -> path_of s x = node_path s n.
+Proof.
+  intros s x n Hw Hg. pose proof (getn_lt _ _ _ Hg) as Hlt.
+  unfold node_path. unfold path_of at 1.
+  rewrite (pth_stable _ Hw x) by lia. simpl. unfold getn in Hg. rewrite Hg.
+  destruct (nparent n) as [c|] eqn:P; auto.
+  assert (Hc : c < x) by (eapply Hw; eauto).
+  unfold path_of.
+  rewrite (pth_stable _ Hw c x) by lia. rewrite (pth_stable _ Hw c (List.length (heap s))) by lia. reflexivity.
+Qed.
+
+Lemma path_of_no_fuel : forall s, wfpar (heap s) -> forall x n, getn s x = Some n -> path_of s x <> PFuel.
+Proof.
+  intros s Hw x. induction x as [x IH] using lt_wf_ind. intros n G.
+  rewrite (path_of_unfold s x n Hw G). unfold node_path.
+  destruct (nparent n) as [c|] eqn:P.
+  - assert (Hc : c < x) by (eapply Hw; eauto).
+    destruct (getn s c) as [cn|] eqn:Gc.
+    + specialize (IH c Hc cn Gc). destruct (path_of s c); congruence.
+    + unfold path_of. pose proof (getn_lt _ _ _ G) as Hlt.
+      destruct (List.length (heap s)) as [|f]; [lia|]. simpl. unfold getn in Gc. rewrite Gc. congruence.
+  - destruct (is_ali (nkind n)); congruence.
+Qed.
+
+(* ---- what paths depend on: name, kind, parent *)
+Definition npk (n : node) := (nname n, nkind n, nparent n).
+
+Lemma pth_ext : forall h h' b, wfpar h ->
+  (forall i, i < b -> option_map npk (nth_error h i) = option_map npk (nth_error h' i)) ->
+  forall f x, x < b -> pth h f x = pth h' f x.
+Proof.
+  intros h h' b Hw He f. induction f as [|f IH]; intros x Hx; simpl; auto.
+  pose proof (He x Hx) as E.
+  destruct (nth_error h x) as [n|] eqn:G; destruct (nth_error h' x) as [n'|] eqn:G'; simpl in E; try discriminate; auto.
+  unfold npk in E. inversion E as [[E1 E2 E3]]. rewrite E1, E2, E3.
+  destruct (nparent n') as [c|] eqn:P; auto.
+  assert (Hc : c < x) by (eapply Hw; eauto; congruence).
+  rewrite IH by lia. reflexivity.
+Qed.
+
+Lemma path_of_ext : forall s s' b, wfpar (heap s) -> wfpar (heap s') ->
+  (forall i, i < b -> option_map npk (getn s i) = option_map npk (getn s' i)) ->
+  b <= List.length (heap s) -> b <= List.length (heap s') ->
+  forall x, x < b -> path_of s x = path_of s' x.
+Proof.
+  intros s s' b Hw Hw' He L L' x Hx. unfold path_of.
+  rewrite (pth_stable _ Hw x) by lia. rewrite (pth_stable _ Hw' x (List.length (heap s'))) by lia.
+  apply pth_ext with b; auto.
+Qed.
+
+(* ---- what lookups depend on: the root dictionary and (is-alias, members) of each node *)
+Definition km (n : node) := (is_ali (nkind n), nmembers n).
+
+Lemma members_r_ext : forall s s' r, root s = root s' ->
+  (forall i, r = RObj i -> option_map km (getn s i) = option_map km (getn s' i)) ->
+  members_r s r = members_r s' r.
+Proof.
+  intros s s' r Hr He. destruct r as [|i]; simpl; [congruence|].
+  specialize (He i eq_refl). destruct (getn s i) as [n|]; destruct (getn s' i) as [n'|]; simpl in He; try discriminate; auto.
+  unfold km in He. inversion He as [[E1 E2]]. rewrite E1, E2. reflexivity.
+Qed.
+
+(* dotted lookup = chained lookup *)
+Lemma get_app : forall s p r q, p <> [] -> q <> [] ->
+  get s r (p ++ q) = match get s r p with Ok x => get s (RObj x) q | Err e => Err e end.
+Proof.
+  intros s p. induction p as [|k p IH]; intros r q Hp Hq; [congruence|].
+  simpl. destruct (members_r s r) as [ms|e]; auto.
+  destruct (mlookup k ms) as [x|]; auto.
+  destruct p as [|k2 p2].
+  - simpl. destruct q; [congruence|reflexivity].
+  - change ((k2 :: p2) ++ q) with (k2 :: (p2 ++ q)). cbv iota. rewrite <- IH by (auto; congruence). reflexivity.
+Qed.
+
+Lemma get_single : forall s r k, get s r [k] = get_at s r k.
+Proof. intros. simpl. unfold get_at. destruct (members_r s r); auto. Qed.
+
+Lemma get_locate : forall s p r,
+  get s r p = match locate s r p with Ok (c, k) => get_at s c k | Err e => Err e end.
+Proof.
+  intros s p. induction p as [|k p IH]; intro r; simpl; auto.
+  destruct (members_r s r) as [ms|e] eqn:M; auto.
+  destruct p as [|k2 p2].
+  - unfold get_at. rewrite M. reflexivity.
+  - destruct (mlookup k ms) as [x|]; auto.
+Qed.
+
+(* ================================================================ D. the structural invariant *)
+
+Record SInv (s : state) : Prop := {
+  s_root : forall k x, mlookup k (root s) = Some x ->
+     exists n, getn s x = Some n /\ nparent n = None /\ nname n = k /\ is_ali (nkind n) = false /\ nmc n = true;
+  s_mem : forall c cn k x, getn s c = Some cn -> mlookup k (nmembers cn) = Some x ->
+     exists n, getn s x = Some n /\ nparent n = Some c /\ nname n = k;
+  s_par : wfpar (heap s)
+}.
+
+Lemma SInv_init : SInv init.
+Proof.
+  constructor.
+  - intros k x H. discriminate.
+  - intros c cn k x H. unfold getn in H. simpl in H. destruct c; discriminate.
+  - intros x n c H. destruct x; discriminate.
+Qed.
+
+(* every object is retrievable from the collection by its own path *)
+Lemma get_path_gen : forall s, SInv s -> forall p r x, get s r p = Ok x ->
+  match r with
+  | RRoot => path_of s x = POk p
+  | RObj c => forall pc, path_of s c = POk pc -> path_of s x = POk (pc ++ p)
+  end.
+Proof.
+  intros s HI p. induction p as [|k p IH]; intros r x H; [simpl in H; discriminate|].
+  simpl in H. destruct (members_r s r) as [ms|e] eqn:M; [|discriminate].
+  destruct (mlookup k ms) as [y|] eqn:L; [|discriminate].
+  assert (Hy : match r with
+               | RRoot => path_of s y = POk [k]
+               | RObj c => forall pc, path_of s c = POk pc -> path_of s y = POk (pc ++ [k])
+               end).
+  { destruct r as [|c]; simpl in M.
+    - inversion M; subst ms. destruct (s_root s HI k y L) as [n [G [P [N [A _]]]]].
+      rewrite (path_of_unfold s y n (s_par s HI) G). unfold node_path. rewrite P, A, N. reflexivity.
+    - destruct (getn s c) as [cn|] eqn:Gc; [|discriminate].
+      destruct (is_ali (nkind cn)); [discriminate|]. inversion M; subst ms.
+      destruct (s_mem s HI c cn k y Gc L) as [n [G [P N]]].
+      intros pc Hpc. rewrite (path_of_unfold s y n (s_par s HI) G). unfold node_path. rewrite P, Hpc, N. reflexivity. }
+  destruct p as [|k2 p2].
+  - inversion H; subst y. destruct r; auto.
+  - specialize (IH (RObj y) x H). simpl in IH.
+    destruct r as [|c].
+    + apply IH in Hy. exact Hy.
+    + intros pc Hpc. specialize (Hy pc Hpc). apply IH in Hy. rewrite <- app_assoc in Hy. exact Hy.
+Qed.
+
+Lemma retrievable : forall s, SInv s -> forall p x, get s RRoot p = Ok x -> path_of s x = POk p.
+Proof. intros s HI p x H. exact (get_path_gen s HI p RRoot x H). Qed.
+
+Lemma get_functional_path : forall s, SInv s -> forall p q x, get s RRoot p = Ok x -> get s RRoot q = Ok x -> p = q.
+Proof.
+  intros s HI p q x Hp Hq. apply (retrievable s HI) in Hp. apply (retrievable s HI) in Hq. congruence.
+Qed.
+
+(* members know their container *)
+Lemma parent_is_container : forall s, SInv s -> forall c cn k m, getn s c = Some cn -> is_ali (nkind cn) = false ->
+  get s (RObj c) [k] = Ok m -> exists n, getn s m = Some n /\ nparent n = Some c /\ nname n = k.
+Proof.
+  intros s HI c cn k m G A H. simpl in H. rewrite G, A in H.
+  destruct (mlookup k (nmembers cn)) as [y|] eqn:L; [|discriminate]. inversion H; subst y.
+  exact (s_mem s HI c cn k m G L).
+Qed.
+
+Lemma top_level_in_collection : forall s, SInv s -> forall k m, get s RRoot [k] = Ok m ->
+  exists n, getn s m = Some n /\ nparent n = None /\ nname n = k /\ has_mc s m = Ok tt.
+Proof.
+  intros s HI k m H. simpl in H. destruct (mlookup k (root s)) as [y|] eqn:L; [|discriminate]. inversion H; subst y.
+  destruct (s_root s HI k m L) as [n [G [P [N [A MC]]]]]. exists n. repeat split; auto.
+  unfold has_mc. pose proof (getn_lt _ _ _ G) as Hlt. destruct (List.length (heap s)) as [|f]; [lia|].
+  simpl. unfold getn in G. rewrite G, A, MC. reflexivity.
+Qed.
+
+(* ---- updates that leave the tree skeleton alone (targets, target paths, back-references) *)
+Definition skel (n : node) := (nname n, nkind n, nparent n, nmembers n, nmc n).
+
+Definition skel_eq (s s' : state) : Prop :=
+  root s = root s' /\ forall i, option_map skel (getn s i) = option_map skel (getn s' i).
+
+Lemma skel_eq_refl : forall s, skel_eq s s.
+Proof. intro s. split; auto. Qed.
+
+Lemma skel_eq_trans : forall a b c, skel_eq a b -> skel_eq b c -> skel_eq a c.
+Proof. intros a b c [R1 H1] [R2 H2]. split; [congruence|]. intro i. rewrite H1. apply H2. Qed.
+
+Lemma skel_eq_upd : forall s i f, (forall n, skel (f n) = skel n) -> skel_eq s (upd_state s i f).
+Proof.
+  intros s i f Hf. split; [reflexivity|]. intro j. rewrite getn_upd.
+  destruct (Nat.eqb i j); auto. destruct (getn s j); simpl; auto. rewrite Hf. reflexivity.
+Qed.
+
+Lemma skel_eq_node : forall s s' i n', skel_eq s s' -> getn s' i = Some n' ->
+  exists n, getn s i = Some n /\ skel n = skel n'.
+Proof.
+  intros s s' i n' [_ H] G. specialize (H i). rewrite G in H.
+  destruct (getn s i) as [n|]; simpl in H; [|discriminate]. exists n. split; auto. congruence.
+Qed.
+
+Lemma skel_eq_sym : forall a b, skel_eq a b -> skel_eq b a.
+Proof. intros a b [R H]. split; auto. Qed.
+
+Lemma skel_eq_length : forall s s', skel_eq s s' -> List.length (heap s) = List.length (heap s').
+Proof.
+  intros s s' [_ H].
+  assert (A : forall i, List.length (heap s) <= i <-> List.length (heap s') <= i).
+  { intro i. rewrite <- !nth_error_None. specialize (H i). unfold getn in H.
+    destruct (nth_error (heap s) i); destruct (nth_error (heap s') i); simpl in H; try discriminate; split; congruence. }
+  pose proof (proj1 (A (List.length (heap s))) (Nat.le_refl _)).
+  pose proof (proj2 (A (List.length (heap s'))) (Nat.le_refl _)). lia.
+Qed.
+
+Lemma skel_npk : forall n n', skel n = skel n' -> npk n = npk n'.
+Proof. intros n n' H. unfold skel in H. unfold npk. inversion H. reflexivity. Qed.
+
+Lemma skel_km : forall n n', skel n = skel n' -> km n = km n'.
+Proof. intros n n' H. unfold skel in H. unfold km. inversion H as [[A B C D E]]. rewrite B, D. reflexivity. Qed.
+
+Lemma pth_skel : forall h h', (forall i, option_map npk (nth_error h i) = option_map npk (nth_error h' i)) ->
+  forall f x, pth h f x = pth h' f x.
+Proof.
+  intros h h' He f. induction f as [|f IH]; intro x; simpl; auto.
+  pose proof (He x) as E.
+  destruct (nth_error h x) as [n|]; destruct (nth_error h' x) as [n'|]; simpl in E; try discriminate; auto.
+  unfold npk in E. inversion E as [[E1 E2 E3]]. rewrite E1, E2, E3.
+  destruct (nparent n'); auto. rewrite IH. reflexivity.
+Qed.
+
+Lemma skel_eq_npk : forall s s', skel_eq s s' -> forall i, option_map npk (getn s i) = option_map npk (getn s' i).
+Proof.
+  intros s s' [_ H] i. specialize (H i).
+  destruct (getn s i) as [n|]; destruct (getn s' i) as [n'|]; simpl in *; try discriminate; auto.
+  f_equal. apply skel_npk. congruence.
+Qed.
+
+Lemma skel_eq_km : forall s s', skel_eq s s' -> forall i, option_map km (getn s i) = option_map km (getn s' i).
+Proof.
+  intros s s' [_ H] i. specialize (H i).
+  destruct (getn s i) as [n|]; destruct (getn s' i) as [n'|]; simpl in *; try discriminate; auto.
+  f_equal. apply skel_km. congruence.
+Qed.
+
+Lemma skel_eq_path : forall s s', skel_eq s s' -> forall x, path_of s x = path_of s' x.
+Proof.
+  intros s s' H x. unfold path_of. rewrite (skel_eq_length s s' H).
+  apply pth_skel. intro i. apply (skel_eq_npk s s' H).
+Qed.
+
+Lemma skel_eq_members_r : forall s s', skel_eq s s' -> forall r, members_r s r = members_r s' r.
+Proof. intros s s' H r. apply members_r_ext; [apply H|]. intros i _. apply skel_eq_km. exact H. Qed.
+
+Lemma skel_eq_get : forall s s', skel_eq s s' -> forall p r, get s r p = get s' r p.
+Proof.
+  intros s s' H p. induction p as [|k p IH]; intro r; simpl; auto.
+  rewrite (skel_eq_members_r s s' H r). destruct (members_r s' r); auto.
+  destruct (mlookup k a); auto. destruct p; auto.
+Qed.
+
+Lemma skel_eq_locate : forall s s', skel_eq s s' -> forall p r, locate s r p = locate s' r p.
+Proof.
+  intros s s' H p. induction p as [|k p IH]; intro r; simpl; auto.
+  rewrite (skel_eq_members_r s s' H r). destruct (members_r s' r); auto.
+  destruct p; auto. destruct (mlookup k a); auto.
+Qed.
+
+Lemma skel_eq_kind : forall s s', skel_eq s s' -> forall i, kind_of s i = kind_of s' i.
+Proof.
+  intros s s' H i. unfold kind_of. pose proof (skel_eq_npk s s' H i) as E.
+  destruct (getn s i); destruct (getn s' i); simpl in *; try discriminate; auto.
+  unfold npk in E. inversion E. reflexivity.
+Qed.
+
+Lemma skel_eq_SInv : forall s s', skel_eq s s' -> SInv s -> SInv s'.
+Proof.
+  intros s s' H HI. pose proof H as [HR HN]. constructor.
+  - intros k x L. rewrite <- HR in L. destruct (s_root s HI k x L) as [n [G [P [N [A M]]]]].
+    specialize (HN x). rewrite G in HN. destruct (getn s' x) as [n'|]; simpl in HN; [|discriminate].
+    exists n'. unfold skel in HN. inversion HN as [[E1 E2 E3 E4 E5]]. repeat split; congruence.
+  - intros c cn' k x G L. destruct (skel_eq_node s s' c cn' H G) as [cn [Gc Ec]].
+    unfold skel in Ec. inversion Ec as [[E1 E2 E3 E4 E5]]. rewrite <- E4 in L.
+    destruct (s_mem s HI c cn k x Gc L) as [n [Gx [P N]]].
+    specialize (HN x). rewrite Gx in HN. destruct (getn s' x) as [n'|]; simpl in HN; [|discriminate].
+    exists n'. unfold skel in HN. inversion HN as [[F1 F2 F3 F4 F5]]. repeat split; congruence.
+  - intros x n' c G P. destruct (skel_eq_node s s' x n' H G) as [n [Gx Ex]].
+    unfold skel in Ex. inversion Ex as [[E1 E2 E3 E4 E5]]. eapply (s_par s HI); eauto. congruence.
+Qed.
+
+Lemma skel_eq_add_backref : forall s t p a, skel_eq s (add_backref s t p a).
+Proof. intros. unfold add_backref. apply skel_eq_upd. intro n. reflexivity. Qed.
+
+Lemma skel_eq_set_target : forall s a v s', set_target s a v = Ok s' -> skel_eq s s'.
+Proof.
+  intros s a v s' H. unfold set_target in H.
+  destruct (kind_of s a) as [[| | | |]|]; try discriminate.
+  destruct (kind_of s v) as [kv|]; try discriminate.
+  destruct (Nat.eqb v a); try discriminate.
+  destruct (path_of s v) as [vp| |]; try discriminate.
+  destruct (path_of s a) as [ap| |]; try discriminate.
+  destruct (path_eqb vp ap); try discriminate.
+  destruct (is_ali kv); try discriminate.
+  inversion H; subst. eapply skel_eq_trans; [|apply skel_eq_add_backref].
+  apply skel_eq_upd. intro n. reflexivity.
+Qed.
+
+Lemma skel_eq_retarget_all : forall als s v, skel_eq s (fst (retarget_all s als v)).
+Proof.
+  induction als as [|a r IH]; intros s v; simpl; [apply skel_eq_refl|].
+  destruct (set_target s a v) as [s'|e] eqn:E.
+  - eapply skel_eq_trans; [eapply skel_eq_set_target; eauto | apply IH].
+  - destruct e; try apply skel_eq_refl. apply IH.
+Qed.
+
+Lemma skel_eq_replace_prelude : forall s m v, skel_eq s (fst (replace_prelude s m v)).
+Proof.
+  intros s m v. unfold replace_prelude.
+  destruct (getn s m) as [mn|]; [|apply skel_eq_refl].
+  destruct (getn s v) as [vn|]; [|apply skel_eq_refl].
+  destruct (is_ali (nkind mn)); [apply skel_eq_refl|].
+  destruct (is_mod (nkind mn) && is_ali (nkind vn)); [apply skel_eq_refl|].
+  apply skel_eq_retarget_all.
+Qed.
+
+Lemma skel_eq_resolve : forall s a, skel_eq s (fst (resolve s a)).
+Proof.
+  intros s a. unfold resolve.
+  destruct (getn s a) as [n|]; [|apply skel_eq_refl].
+  destruct (negb (is_ali (nkind n))); [apply skel_eq_refl|].
+  destruct (has_mc s a); [|apply skel_eq_refl].
+  destruct (path_eqb (ntpath n) [""]); [apply skel_eq_refl|].
+  destruct (get s RRoot (ntpath n)) as [x|e]; [|destruct e; apply skel_eq_refl].
+  destruct (Nat.eqb x a); [apply skel_eq_refl|].
+  destruct (kind_of s x) as [kx|]; [|apply skel_eq_refl].
+  destruct (is_ali kx); [apply skel_eq_refl|].
+  assert (H1 : skel_eq s (upd_state s a (with_target (Some x) (ntpath n)))) by (apply skel_eq_upd; intro; reflexivity).
+  destruct (path_of s a); simpl; auto.
+  eapply skel_eq_trans; [exact H1 | apply skel_eq_add_backref].
+Qed.
+
+(* ---- a freshly built object: the last node, not yet linked from anywhere *)
+Record Detached (s : state) (v : nat) : Prop := {
+  d_last : S v = List.length (heap s);
+  d_node : exists vn, getn s v = Some vn /\ nparent vn = None /\ nmembers vn = [];
+  d_noroot : forall k, mlookup k (root s) <> Some v;
+  d_nomem : forall c cn k, getn s c = Some cn -> mlookup k (nmembers cn) <> Some v
+}.
+
+Lemma Detached_skel_eq : forall s s' v, skel_eq s s' -> Detached s v -> Detached s' v.
+Proof.
+  intros s s' v H D. pose proof H as [HR HN]. constructor.
+  - rewrite <- (skel_eq_length s s' H). apply (d_last s v D).
+  - destruct (d_node s v D) as [vn [G [P M]]]. specialize (HN v). rewrite G in HN.
+    destruct (getn s' v) as [vn'|]; simpl in HN; [|discriminate]. exists vn'.
+    unfold skel in HN. inversion HN as [[E1 E2 E3 E4 E5]]. repeat split; congruence.
+  - intros k. rewrite <- HR. apply (d_noroot s v D).
+  - intros c cn' k G. destruct (skel_eq_node s s' c cn' H G) as [cn [Gc Ec]].
+    unfold skel in Ec. inversion Ec as [[E1 E2 E3 E4 E5]]. intro L.
+    apply (d_nomem s v D c cn k Gc). congruence.
+Qed.
+
+Lemma getn_app_lt : forall s nd i, i < List.length (heap s) -> getn (mkState (heap s ++ [nd]) (root s)) i = getn s i.
+Proof. intros. unfold getn. simpl. apply nth_error_app1. auto. Qed.
+
+Lemma getn_app_last : forall s nd, getn (mkState (heap s ++ [nd]) (root s)) (List.length (heap s)) = Some nd.
+Proof. intros. unfold getn. simpl. rewrite nth_error_app2 by lia. rewrite Nat.sub_diag. reflexivity. Qed.
+
+Lemma SInv_app : forall s nd, SInv s -> nparent nd = None -> nmembers nd = [] ->
+  SInv (mkState (heap s ++ [nd]) (root s)) /\ Detached (mkState (heap s ++ [nd]) (root s)) (List.length (heap s)).
+Proof.
+  intros s nd HI P M. set (s1 := mkState (heap s ++ [nd]) (root s)).
+  assert (Hold : forall i n, getn s i = Some n -> getn s1 i = Some n).
+  { intros i n G. unfold s1. rewrite getn_app_lt; auto. eapply getn_lt; eauto. }
+  split.
+  - constructor.
+    + intros k x L. simpl in L. destruct (s_root s HI k x L) as [n [G R]]. exists n. split; auto.
+    + intros c cn k x G L. apply getn_app_old in G. destruct G as [[_ G]|[_ E]].
+      * destruct (s_mem s HI c cn k x G L) as [n [Gx R]]. exists n. split; auto.
+      * subst cn. rewrite M in L. discriminate.
+    + intros x n c G Pn. change (nth_error (heap s1) x = Some n) in G. fold (getn s1 x) in G.
+      apply getn_app_old in G. destruct G as [[_ G]|[_ E]].
+      * eapply (s_par s HI); eauto.
+      * subst n. congruence.
+  - constructor.
+    + simpl. rewrite app_length. simpl. lia.
+    + exists nd. split; [apply getn_app_last | auto].
+    + intros k L. simpl in L. destruct (s_root s HI k _ L) as [n [G _]]. apply getn_lt in G. lia.
+    + intros c cn k G L. apply getn_app_old in G. destruct G as [[_ G]|[_ E]].
+      * destruct (s_mem s HI c cn k _ G L) as [n [Gx _]]. apply getn_lt in Gx. lia.
+      * subst cn. rewrite M in L. discriminate.
+Qed.
+
+(* ---- linking a detached object under an object *)
+Definition link_obj (s : state) (i : nat) (k : name) (v : nat) : state :=
+  upd_state (upd_state s i (fun n => with_members (mput k v (nmembers n)) n)) v (with_parent (Some i)).
+
+Lemma getn_link_obj : forall s i k v x, i <> v ->
+  getn (link_obj s i k v) x =
+    if Nat.eqb x v then option_map (with_parent (Some i)) (getn s v)
+    else if Nat.eqb x i then option_map (fun n => with_members (mput k v (nmembers n)) n) (getn s i)
+    else getn s x.
+Proof.
+  intros s i k v x Hne. unfold link_obj. rewrite getn_upd.
+  destruct (Nat.eqb v x) eqn:E1.
+  - apply Nat.eqb_eq in E1. subst x. rewrite Nat.eqb_refl. rewrite getn_upd.
+    destruct (Nat.eqb i v) eqn:E2; [apply Nat.eqb_eq in E2; congruence|reflexivity].
+  - rewrite Nat.eqb_sym in E1. rewrite E1. rewrite getn_upd. rewrite (Nat.eqb_sym x i).
+    destruct (Nat.eqb i x) eqn:E2; auto. apply Nat.eqb_eq in E2. subst. reflexivity.
+Qed.
+
+Lemma SInv_link_obj : forall s i cn k v vn, SInv s -> Detached s v ->
+  getn s i = Some cn -> i <> v -> getn s v = Some vn -> nname vn = k ->
+  SInv (link_obj s i k v).
+Proof.
+  intros s i cn k v vn HI D Gi Hne Gv Nv.
+  destruct (d_node s v D) as [vn0 [Gv0 [Pv Mv]]]. rewrite Gv in Gv0. inversion Gv0; subst vn0. clear Gv0.
+  assert (Hiv : i < v). { pose proof (getn_lt _ _ _ Gi). pose proof (d_last s v D). lia. }
+  constructor.
+  - intros k' x L. unfold link_obj in L. simpl in L.
+    destruct (s_root s HI k' x L) as [n [G [P [N [A MC]]]]].
+    assert (x <> v) by (intro Hx; rewrite Hx in L; exact (d_noroot s v D k' L)).
+    rewrite getn_link_obj by auto. apply Nat.eqb_neq in H. rewrite H.
+    destruct (Nat.eqb x i) eqn:E.
+    + apply Nat.eqb_eq in E. subst x. rewrite Gi. rewrite Gi in G. inversion G; subst n. simpl.
+      eexists. split; [reflexivity|]. simpl. auto.
+    + exists n. auto.
+  - intros c cn' k' x G L. rewrite getn_link_obj in G by auto.
+    destruct (Nat.eqb c v) eqn:Ecv.
+    + rewrite Gv in G. simpl in G. inversion G; subst cn'. simpl in L. rewrite Mv in L. discriminate.
+    + destruct (Nat.eqb c i) eqn:Eci.
+      * apply Nat.eqb_eq in Eci. subst c. rewrite Gi in G. simpl in G. inversion G; subst cn'. simpl in L.
+        destruct (String.eqb k' k) eqn:Ek.
+        -- apply String.eqb_eq in Ek. subst k'. rewrite mlookup_put_same in L. inversion L; subst x.
+           rewrite getn_link_obj by auto. rewrite Nat.eqb_refl. rewrite Gv. simpl.
+           eexists. split; [reflexivity|]. simpl. auto.
+        -- apply String.eqb_neq in Ek. rewrite mlookup_put_other in L by auto.
+           destruct (s_mem s HI i cn k' x Gi L) as [n [Gx [P N]]].
+           assert (x <> v) by (intro Hx; rewrite Hx in L; exact (d_nomem s v D i cn k' Gi L)).
+           assert (x <> i). { intro; subst x. rewrite Gi in Gx. inversion Gx; subst n.
+                              pose proof (s_par s HI i cn i Gi P). lia. }
+           rewrite getn_link_obj by auto. apply Nat.eqb_neq in H, H0. rewrite H, H0. exists n. auto.
+      * destruct (s_mem s HI c cn' k' x G L) as [n [Gx [P N]]].
+        assert (x <> v) by (intro Hx; rewrite Hx in L; exact (d_nomem s v D c cn' k' G L)).
+        rewrite getn_link_obj by auto. apply Nat.eqb_neq in H. rewrite H.
+        destruct (Nat.eqb x i) eqn:E.
+        -- apply Nat.eqb_eq in E. subst x. rewrite Gi. rewrite Gi in Gx. inversion Gx; subst n. simpl.
+           eexists. split; [reflexivity|]. simpl. auto.
+        -- exists n. auto.
+  - intros x n c G P. change (getn (link_obj s i k v) x = Some n) in G. rewrite getn_link_obj in G by auto.
+    destruct (Nat.eqb x v) eqn:Exv.
+    + apply Nat.eqb_eq in Exv. subst x. rewrite Gv in G. simpl in G. inversion G; subst n. simpl in P.
+      inversion P; subst c. exact Hiv.
+    + destruct (Nat.eqb x i) eqn:Exi.
+      * apply Nat.eqb_eq in Exi. subst x. rewrite Gi in G. simpl in G. inversion G; subst n. simpl in P.
+        eapply (s_par s HI); eauto.
+      * eapply (s_par s HI); eauto.
+Qed.
+
+(* ---- linking a detached object into the collection *)
+Definition link_root (s : state) (k : name) (v : nat) : state :=
+  mkState (upd (heap s) v with_mc) (mput k v (root s)).
+
+Lemma getn_link_root : forall s k v x,
+  getn (link_root s k v) x = if Nat.eqb v x then option_map with_mc (getn s x) else getn s x.
+Proof. intros. unfold link_root. exact (getn_upd s v x with_mc). Qed.
+
+Lemma SInv_link_root : forall s k v vn, SInv s -> Detached s v ->
+  getn s v = Some vn -> nname vn = k -> is_ali (nkind vn) = false ->
+  SInv (link_root s k v).
+Proof.
+  intros s k v vn HI D Gv Nv Av.
+  destruct (d_node s v D) as [vn0 [Gv0 [Pv Mv]]]. rewrite Gv in Gv0. inversion Gv0; subst vn0. clear Gv0.
+  constructor.
+  - intros k' x L. unfold link_root in L. simpl in L. rewrite getn_link_root.
+    destruct (String.eqb k' k) eqn:Ek.
+    + apply String.eqb_eq in Ek. subst k'. rewrite mlookup_put_same in L. inversion L; subst x.
+      rewrite Nat.eqb_refl. rewrite Gv. simpl. eexists. split; [reflexivity|]. simpl. auto.
+    + apply String.eqb_neq in Ek. rewrite mlookup_put_other in L by auto.
+      destruct (s_root s HI k' x L) as [n [G R]].
+      assert (v <> x) by (intro Hx; rewrite <- Hx in L; exact (d_noroot s v D k' L)).
+      apply Nat.eqb_neq in H. rewrite H. exists n. auto.
+  - intros c cn k' x G L. rewrite getn_link_root in G.
+    assert (exists cn0, getn s c = Some cn0 /\ nmembers cn0 = nmembers cn) as [cn0 [G0 M0]].
+    { destruct (Nat.eqb v c); [|eauto]. destruct (getn s c) as [c0|]; simpl in G; [|discriminate].
+      inversion G; subst cn. exists c0. auto. }
+    rewrite <- M0 in L. destruct (s_mem s HI c cn0 k' x G0 L) as [n [Gx [P N]]].
+    assert (v <> x) by (intro Hx; rewrite <- Hx in L; exact (d_nomem s v D c cn0 k' G0 L)).
+    rewrite getn_link_root. apply Nat.eqb_neq in H. rewrite H. exists n. auto.
+  - intros x n c G P. change (getn (link_root s k v) x = Some n) in G. rewrite getn_link_root in G.
+    destruct (Nat.eqb v x).
+    + destruct (getn s x) as [n0|] eqn:G0; simpl in G; [|discriminate]. inversion G; subst n. simpl in P.
+      eapply (s_par s HI); eauto.
+    + eapply (s_par s HI); eauto.
+Qed.
+
+(* ---- unlinking *)
+Lemma mlookup_del_Some : forall k k' l x, mlookup k' (mdel k l) = Some x -> mlookup k' l = Some x.
+Proof.
+  intros k k' l x H. destruct (String.eqb k' k) eqn:E.
+  - apply String.eqb_eq in E. subst. rewrite mlookup_del_same in H. discriminate.
+  - apply String.eqb_neq in E. rewrite mlookup_del_other in H; auto.
+Qed.
+
+Lemma SInv_unlink_root : forall s k, SInv s -> SInv (mkState (heap s) (mdel k (root s))).
+Proof.
+  intros s k HI. constructor.
+  - intros k' x L. simpl in L. apply mlookup_del_Some in L. exact (s_root s HI k' x L).
+  - intros c cn k' x G L. exact (s_mem s HI c cn k' x G L).
+  - exact (s_par s HI).
+Qed.
+
+Lemma SInv_unlink_obj : forall s i k, SInv s ->
+  SInv (upd_state s i (fun n => with_members (mdel k (nmembers n)) n)).
+Proof.
+  intros s i k HI.
+  assert (Hn : forall x n', getn (upd_state s i (fun n => with_members (mdel k (nmembers n)) n)) x = Some n' ->
+           exists n, getn s x = Some n /\ npk n = npk n' /\ nmc n = nmc n' /\
+                     (forall k' y, mlookup k' (nmembers n') = Some y -> mlookup k' (nmembers n) = Some y)).
+  { intros x n' G. rewrite getn_upd in G. destruct (Nat.eqb i x).
+    - destruct (getn s x) as [n|]; simpl in G; [|discriminate]. inversion G; subst n'. exists n.
+      repeat split; auto. simpl. intros k' y. apply mlookup_del_Some.
+    - exists n'. repeat split; auto. }
+  assert (Hk : forall x n, getn s x = Some n ->
+           exists n', getn (upd_state s i (fun n => with_members (mdel k (nmembers n)) n)) x = Some n' /\ npk n = npk n' /\ nmc n = nmc n').
+  { intros x n G. rewrite getn_upd. destruct (Nat.eqb i x).
+    - rewrite G. simpl. eexists. split; [reflexivity|]. split; reflexivity.
+    - exists n. auto. }
+  constructor.
+  - intros k' x L. simpl in L. destruct (s_root s HI k' x L) as [n [G [P [N [A MC]]]]].
+    destruct (Hk x n G) as [n' [G' [E1 E2]]]. exists n'. unfold npk in E1. inversion E1. repeat split; congruence.
+  - intros c cn' k' x G L. destruct (Hn c cn' G) as [cn [Gc [_ [_ Hm]]]].
+    destruct (s_mem s HI c cn k' x Gc (Hm k' x L)) as [n [Gx [P N]]].
+    destruct (Hk x n Gx) as [n' [G' [E1 E2]]]. exists n'. unfold npk in E1. inversion E1. repeat split; congruence.
+  - intros x n' c G P. destruct (Hn x n' G) as [n [Gx [E1 _]]]. unfold npk in E1. inversion E1.
+    eapply (s_par s HI); eauto. congruence.
+Qed.
+
+(* ---- locate *)
+Lemma locate_key : forall s p r c k, locate s r p = Ok (c, k) -> k = last p "".
+Proof.
+  intros s p. induction p as [|k0 p IH]; intros r c k H; simpl in H; [discriminate|].
+  destruct (members_r s r) as [ms|]; [|discriminate].
+  destruct p as [|k1 p1].
+  - inversion H. reflexivity.
+  - destruct (mlookup k0 ms) as [x|]; [|discriminate]. apply IH in H. exact H.
+Qed.
+
+Lemma locate_obj_not_root : forall s q x k, locate s (RObj x) q = Ok (RRoot, k) -> False.
+Proof.
+  intros s q. induction q as [|a q IH]; intros x k H; [discriminate|].
+  cbn [locate] in H. destruct (members_r s (RObj x)) as [ms'|]; [|discriminate].
+  destruct q as [|b q']; [inversion H|].
+  destruct (mlookup a ms') as [y|]; [|discriminate]. eapply IH; eauto.
+Qed.
+
+Lemma locate_root : forall s p r k, locate s r p = Ok (RRoot, k) -> r = RRoot /\ p = [k].
+Proof.
+  intros s p. destruct p as [|k0 p]; intros r k H; simpl in H; [discriminate|].
+  destruct (members_r s r) as [ms|]; [|discriminate].
+  destruct p as [|k1 p1].
+  - inversion H. auto.
+  - destruct (mlookup k0 ms) as [x|]; [|discriminate]. exfalso. eapply locate_obj_not_root; eauto.
+Qed.
+
+Lemma locate_members : forall s p r c k, locate s r p = Ok (c, k) -> exists ms, members_r s c = Ok ms.
+Proof.
+  intros s p. induction p as [|k0 p IH]; intros r c k H; simpl in H; [discriminate|].
+  destruct (members_r s r) as [ms|] eqn:M; [|discriminate].
+  destruct p as [|k1 p1].
+  - inversion H; subst. eauto.
+  - destruct (mlookup k0 ms) as [x|]; [|discriminate]. eapply IH; eauto.
+Qed.
+
+Lemma members_r_obj : forall s i ms, members_r s (RObj i) = Ok ms ->
+  exists n, getn s i = Some n /\ is_ali (nkind n) = false /\ ms = nmembers n.
+Proof.
+  intros s i ms H. simpl in H. destruct (getn s i) as [n|]; [|discriminate].
+  destruct (is_ali (nkind n)) eqn:A; [discriminate|]. inversion H. eauto.
+Qed.
+
+Lemma locate_not_detached : forall s v, Detached s v -> forall p r i k,
+  r <> RObj v -> locate s r p = Ok (RObj i, k) -> i <> v.
+Proof.
+  intros s v D p. induction p as [|k0 p IH]; intros r i k Hr H; simpl in H; [discriminate|].
+  destruct (members_r s r) as [ms|] eqn:M; [|discriminate].
+  destruct p as [|k1 p1].
+  - inversion H; subst. congruence.
+  - destruct (mlookup k0 ms) as [x|] eqn:L; [|discriminate].
+    apply (IH (RObj x) i k); auto. intro E. inversion E; subst x.
+    destruct r as [|c].
+    + simpl in M. inversion M; subst. eapply (d_noroot s v D); eauto.
+    + apply members_r_obj in M. destruct M as [n [G [_ E2]]]. subst ms. eapply (d_nomem s v D); eauto.
+Qed.
+
+(* ---- the structural invariant is kept by every top-down operation *)
+Lemma alloc_cases : forall s k n t s1 e, alloc s k n t = (s1, e) ->
+  (s1 = s /\ e <> None) \/
+  (e = None /\ exists nd, s1 = mkState (heap s ++ [nd]) (root s) /\ nparent nd = None /\ nmembers nd = [] /\
+                          nname nd = n /\ nkind nd = k /\ naliases nd = [] /\
+                          (forall x, ntarget nd = Some x -> k = KAli /\ kind_of s x <> None /\ kind_of s x <> Some KAli /\ path_of s x = POk (ntpath nd))).
+Proof.
+  intros s k n t s1 e H. unfold alloc in H.
+  assert (F : forall tp, (mkState (heap s ++ [fresh n k None tp]) (root s), @None err) = (s1, e) ->
+     e = None /\ exists nd, s1 = mkState (heap s ++ [nd]) (root s) /\ nparent nd = None /\ nmembers nd = [] /\
+                          nname nd = n /\ nkind nd = k /\ naliases nd = [] /\
+                          (forall x, ntarget nd = Some x -> k = KAli /\ kind_of s x <> None /\ kind_of s x <> Some KAli /\ path_of s x = POk (ntpath nd))).
+  { intros tp E. inversion E; subst. split; auto. eexists. split; [reflexivity|]. simpl. repeat split; auto; discriminate. }
+  destruct k; destruct t as [|p|x]; try (left; inversion H; split; [reflexivity|discriminate]); try (right; apply (F _ H)).
+  destruct (kind_of s x) as [kx|] eqn:Kx; [|left; inversion H; split; [reflexivity|discriminate]].
+  destruct (is_ali kx) eqn:A; [left; inversion H; split; [reflexivity|discriminate]|].
+  destruct (path_of s x) as [px| |] eqn:Px; try (left; inversion H; split; [reflexivity|discriminate]).
+  right. inversion H; subst. split; auto. eexists. split; [reflexivity|]. simpl. repeat split; auto.
+  - inversion H0; subst. rewrite Kx. discriminate.
+  - inversion H0; subst. rewrite Kx. intro E. inversion E; subst kx. discriminate.
+  - inversion H0; subst. exact Px.
+Qed.
+
+Lemma SInv_update_target_aliases : forall s a s', update_target_aliases s a = Ok s' -> skel_eq s s'.
+Proof.
+  intros s a s' H. unfold update_target_aliases in H.
+  destruct (getn s a) as [n|]; [|inversion H; apply skel_eq_refl].
+  destruct (ntarget n) as [t|]; [|inversion H; apply skel_eq_refl].
+  destruct (path_of s a); inversion H; subst; try apply skel_eq_refl. apply skel_eq_add_backref.
+Qed.
+
+Lemma write_member_shape : forall s c k v s', write_member s c k v = Ok s' ->
+  match c with
+  | RRoot => s' = link_root s k v
+  | RObj i => skel_eq (link_obj s i k v) s'
+  end.
+Proof.
+  intros s c k v s' H. unfold write_member in H. destruct c as [|i].
+  - inversion H. reflexivity.
+  - fold (link_obj s i k v) in H.
+    assert (E : kind_of (link_obj s i k v) v = kind_of (link_obj s i k v) v) by reflexivity.
+    destruct (kind_of s v) as [[| | | |]|]; try (inversion H; apply skel_eq_refl).
+    eapply SInv_update_target_aliases; eauto.
+Qed.
+
+Lemma SInv_set_value_fresh : forall s a r p v vn, SInv s -> Detached s v -> getn s v = Some vn ->
+  r <> RObj v -> nname vn = last p "" -> (r = RRoot -> (exists k, p = [k]) -> is_ali (nkind vn) = false) ->
+  SInv (fst (set_value s a r p v)).
+Proof.
+  intros s a r p v vn HI D Gv Hr Nv Av. unfold set_value. rewrite Gv.
+  destruct (locate s r p) as [[c k]|e] eqn:Lc; [|exact HI].
+  destruct (members_r s c) as [ms|e] eqn:M; [|exact HI].
+  pose proof (locate_key s p r c k Lc) as Hk.
+  assert (Hpre : forall s1 e1, skel_eq s s1 ->
+     SInv (fst (match e1 with
+                | Some e => (s1, Some e)
+                | None => match write_member s1 c k v with Ok s2 => (s2, None) | Err e => (s1, Some e) end
+                end))).
+  { intros s1 e1 H1. pose proof (skel_eq_SInv s s1 H1 HI) as HI1.
+    destruct e1; simpl; auto.
+    destruct (write_member s1 c k v) as [s2|e] eqn:W; simpl; auto.
+    apply write_member_shape in W.
+    pose proof (Detached_skel_eq s s1 v H1 D) as D1.
+    destruct (skel_eq_node s1 s v vn (skel_eq_sym _ _ H1) Gv) as [vn1 [Gv1 Ev]].
+    unfold skel in Ev. inversion Ev as [[E1 E2 E3 E4 E5]].
+    destruct c as [|i].
+    - subst s2. apply locate_root in Lc. destruct Lc as [Er Ep]. subst r p.
+      apply (SInv_link_root s1 k v vn1 HI1 D1 Gv1).
+      + rewrite E1, Nv. reflexivity.
+      + rewrite E2. apply Av; eauto.
+    - apply (skel_eq_SInv _ _ W).
+      pose proof (locate_not_detached s v D p r i k Hr Lc) as Hiv.
+      rewrite (skel_eq_members_r s s1 H1) in M. apply members_r_obj in M. destruct M as [cn [Gi _]].
+      apply (SInv_link_obj s1 i cn k v vn1 HI1 D1 Gi Hiv Gv1). rewrite E1, Nv. symmetry. exact Hk. }
+  destruct a.
+  - destruct (mlookup k ms) as [m|].
+    + pose proof (skel_eq_replace_prelude s m v) as Hp. destruct (replace_prelude s m v) as [s1 e1]. simpl in Hp.
+      exact (Hpre s1 e1 Hp).
+    + exact (Hpre s None (skel_eq_refl s)).
+  - destruct (mlookup k ms); exact (Hpre s None (skel_eq_refl s)).
+Qed.
+
+Lemma SInv_del_value : forall s r p, SInv s -> SInv (fst (del_value s r p)).
+Proof.
+  intros s r p HI. unfold del_value.
+  destruct (locate s r p) as [[c k]|e]; [|exact HI].
+  destruct (get_at s c k); [|exact HI].
+  destruct c; simpl; [apply SInv_unlink_root | apply SInv_unlink_obj]; exact HI.
+Qed.
+
+Lemma top_down_new_root_kind : forall s a r p k t, top_down s (ONew a r p k t) = true ->
+  r = RRoot -> (exists k0, p = [k0]) -> is_ali k = false.
+Proof.
+  intros s a r p k t H Hr [k0 Hp]. subst r p. simpl in H. destruct k; auto; try discriminate.
+Qed.
+
+Lemma SInv_step : forall s o, SInv s -> top_down s o = true -> SInv (fst (step s o)).
+Proof.
+  intros s o HI Htd. destruct o as [k n t|a r p v|a r p k t|a r p|a|a v]; try (simpl in Htd; discriminate); simpl.
+  - destruct (recv_exists s r) eqn:Re; simpl; [|exact HI].
+    destruct (alloc s k (last p "") t) as [s1 e] eqn:Al.
+    apply alloc_cases in Al. destruct Al as [[E1 E2]|[E1 [nd [E2 [P [M [N [K _]]]]]]]].
+    + subst s1. destruct e; [exact HI|congruence].
+    + subst e. destruct (SInv_app s nd HI P M) as [HI1 D1]. rewrite <- E2 in HI1, D1.
+      apply (SInv_set_value_fresh s1 a r p (List.length (heap s)) nd HI1 D1).
+      * subst s1. apply getn_app_last.
+      * destruct r as [|i]; [discriminate|]. simpl in Re. apply Nat.ltb_lt in Re. intro E. inversion E. lia.
+      * exact N.
+      * intros Hr Hp. rewrite K. exact (top_down_new_root_kind s a r p k t Htd Hr Hp).
+  - apply SInv_del_value. exact HI.
+  - apply (skel_eq_SInv s); [apply skel_eq_resolve | exact HI].
+  - destruct (set_target s a v) as [s'|e] eqn:E; simpl; [|exact HI].
+    apply (skel_eq_SInv s); [eapply skel_eq_set_target; eauto | exact HI].
+Qed.
+
+Lemma run_cons : forall s o r, run s (o :: r) = run (fst (step s o)) r.
+Proof. reflexivity. Qed.
+
+Lemma SInv_run : forall ops s, SInv s -> all_top_down s ops = true -> SInv (run s ops).
+Proof.
+  induction ops as [|o r IH]; intros s HI H; [exact HI|].
+  simpl in H. apply andb_true_iff in H. destruct H as [H1 H2]. rewrite run_cons. apply IH; auto. apply SInv_step; auto.
+Qed.
+
+(* ---- deleted members are gone (any state) *)
+Definition unlink (s : state) (c : recv) (k : name) : state :=
+  match c with
+  | RRoot => mkState (heap s) (mdel k (root s))
+  | RObj i => upd_state s i (fun n => with_members (mdel k (nmembers n)) n)
+  end.
+
+Definition recv_eqb (a b : recv) : bool :=
+  match a, b with RRoot, RRoot => true | RObj i, RObj j => Nat.eqb i j | _, _ => false end.
+
+Lemma recv_eqb_eq : forall a b, recv_eqb a b = true <-> a = b.
+Proof.
+  intros [|i] [|j]; simpl; split; intro H; try discriminate; auto.
+  - apply Nat.eqb_eq in H. congruence.
+  - inversion H. apply Nat.eqb_refl.
+Qed.
+
+Lemma members_r_unlink : forall s c k r ms, members_r s r = Ok ms ->
+  members_r (unlink s c k) r = Ok (if recv_eqb r c then mdel k ms else ms).
+Proof.
+  intros s c k r ms H. destruct c as [|i]; destruct r as [|j]; simpl in *.
+  - inversion H. reflexivity.
+  - exact H.
+  - exact H.
+  - rewrite getn_upd. destruct (Nat.eqb i j) eqn:E.
+    + apply Nat.eqb_eq in E. subst j. rewrite Nat.eqb_refl.
+      destruct (getn s i) as [n|]; [|discriminate]. simpl.
+      destruct (is_ali (nkind n)); [discriminate|]. inversion H. reflexivity.
+    + rewrite Nat.eqb_sym in E. rewrite E. exact H.
+Qed.
+
+Lemma deleted_gone_gen : forall s c k p r, locate s r p = Ok (c, k) -> get (unlink s c k) r p = Err EMissing.
+Proof.
+  intros s c k p. induction p as [|k0 p IH]; intros r H; simpl in H; [discriminate|].
+  destruct (members_r s r) as [ms|] eqn:M; [|discriminate].
+  cbn [get]. rewrite (members_r_unlink s c k r ms M).
+  destruct p as [|k1 p1].
+  - inversion H; subst r k0. assert (E : recv_eqb c c = true) by (apply recv_eqb_eq; reflexivity).
+    rewrite E. rewrite mlookup_del_same. reflexivity.
+  - destruct (mlookup k0 ms) as [x|] eqn:L; [|discriminate].
+    destruct (recv_eqb r c) eqn:E.
+    + destruct (String.eqb k0 k) eqn:Ek.
+      * apply String.eqb_eq in Ek. subst k0. rewrite mlookup_del_same. reflexivity.
+      * apply String.eqb_neq in Ek. rewrite mlookup_del_other by auto. rewrite L. apply IH. exact H.
+    + rewrite L. apply IH. exact H.
+Qed.
+
+Lemma del_value_shape : forall s r p s', del_value s r p = (s', None) ->
+  exists c k, locate s r p = Ok (c, k) /\ s' = unlink s c k.
+Proof.
+  intros s r p s' H. unfold del_value in H.
+  destruct (locate s r p) as [[c k]|e]; [|discriminate].
+  destruct (get_at s c k); [|discriminate].
+  exists c, k. split; auto. destruct c; inversion H; reflexivity.
+Qed.
+
+Theorem deleted_gone : forall s a r p s', step s (ODel a r p) = (s', None) -> get s' r p = Err EMissing.
+Proof.
+  intros s a r p s' H. simpl in H. apply del_value_shape in H. destruct H as [c [k [L E]]]. subst s'.
+  apply deleted_gone_gen. exact L.
+Qed.
+
+(* a rejected deletion changes nothing *)
+Theorem rejected_del_unchanged : forall s a r p s' e, step s (ODel a r p) = (s', Some e) -> s' = s.
+Proof.
+  intros s a r p s' e H. simpl in H. unfold del_value in H.
+  destruct (locate s r p) as [[c k]|e0]; [|inversion H; reflexivity].
+  destruct (get_at s c k); [|inversion H; reflexivity].
+  destruct c; discriminate.
+Qed.
+
+(* ---- lookups after a change that only adds the members of "bad" nodes / removes entries *)
+Lemma get_backward : forall s s' (bad : nat -> Prop),
+  (forall k x, mlookup k (root s') = Some x -> bad x \/ mlookup k (root s) = Some x) ->
+  (forall i n', getn s' i = Some n' -> ~ bad i -> is_ali (nkind n') = false ->
+      exists n, getn s i = Some n /\ is_ali (nkind n) = false /\
+                forall k x, mlookup k (nmembers n') = Some x -> bad x \/ mlookup k (nmembers n) = Some x) ->
+  (forall i n', bad i -> getn s' i = Some n' -> nmembers n' = []) ->
+  forall p r x, match r with RRoot => True | RObj i => ~ bad i end ->
+  get s' r p = Ok x -> ~ bad x -> get s r p = Ok x.
+Proof.
+  intros s s' bad HR HN HB p. induction p as [|k p IH]; intros r x Hr H Hx; [simpl in H; discriminate|].
+  cbn [get] in *.
+  destruct (members_r s' r) as [ms'|] eqn:M'; [|discriminate].
+  destruct (mlookup k ms') as [y|] eqn:L'; [|discriminate].
+  assert (Hy : bad y \/ (exists ms, members_r s r = Ok ms /\ mlookup k ms = Some y)).
+  { destruct r as [|i]; simpl in M'.
+    - inversion M'; subst ms'. destruct (HR k y L') as [B|L]; [left; auto|right]. exists (root s). simpl. auto.
+    - destruct (getn s' i) as [n'|] eqn:G'; [|discriminate]. destruct (is_ali (nkind n')) eqn:A'; [discriminate|].
+      inversion M'; subst ms'. destruct (HN i n' G' Hr A') as [n [G [A Hm]]].
+      destruct (Hm k y L') as [B|L]; [left; auto|right]. exists (nmembers n). simpl. rewrite G, A. auto. }
+  destruct p as [|k2 p2].
+  - inversion H; subst y. destruct Hy as [B|[ms [M L]]]; [contradiction|]. rewrite M, L. reflexivity.
+  - destruct Hy as [B|[ms [M L]]].
+    + exfalso. cbn [get] in H. destruct (members_r s' (RObj y)) as [msy|] eqn:My; [|discriminate].
+      simpl in My. destruct (getn s' y) as [ny|] eqn:Gy; [|discriminate].
+      destruct (is_ali (nkind ny)); [discriminate|]. inversion My; subst msy.
+      rewrite (HB y ny B Gy) in H. simpl in H. discriminate.
+    + rewrite M, L. apply (IH (RObj y) x); auto.
+      intro B. cbn [get] in H. destruct (members_r s' (RObj y)) as [msy|] eqn:My; [|discriminate].
+      simpl in My. destruct (getn s' y) as [ny|] eqn:Gy; [|discriminate].
+      destruct (is_ali (nkind ny)); [discriminate|]. inversion My; subst msy.
+      rewrite (HB y ny B Gy) in H. simpl in H. discriminate.
+Qed.
+
+(* ================================================================ E. the alias invariant *)
+
+Record AInv (s : state) : Prop := {
+  a_key : forall t tn p a, getn s t = Some tn -> In (p, a) (naliases tn) ->
+     path_of s a = POk p /\ kind_of s a = Some KAli;
+  a_nodup : forall t tn, getn s t = Some tn -> NoDup (map fst (naliases tn));
+  a_back : forall p a n t, get s RRoot p = Ok a -> getn s a = Some n -> ntarget n = Some t ->
+     exists tn, getn s t = Some tn /\ alookup p (naliases tn) = Some a;
+  a_tgt : forall a n t, getn s a = Some n -> ntarget n = Some t -> kind_of s t <> None
+}.
+
+Lemma AInv_init : AInv init.
+Proof.
+  constructor.
+  - intros t tn p a H. unfold getn in H. simpl in H. destruct t; discriminate.
+  - intros t tn H. unfold getn in H. simpl in H. destruct t; discriminate.
+  - intros p a n t H. destruct p; simpl in H; discriminate.
+  - intros a n t H. unfold getn in H. simpl in H. destruct a; discriminate.
+Qed.
+
+(* the common core of Alias.target= and Alias._resolve_target: point a at v and register the back-reference *)
+Definition point_at (s : state) (a v : nat) (tp ap : path) : state :=
+  add_backref (upd_state s a (with_target (Some v) tp)) v ap a.
+
+Lemma skel_eq_point_at : forall s a v tp ap, skel_eq s (point_at s a v tp ap).
+Proof.
+  intros. unfold point_at. eapply skel_eq_trans; [|apply skel_eq_add_backref].
+  apply skel_eq_upd. intro n. reflexivity.
+Qed.
+
+Lemma getn_point_at : forall s a v tp ap x, a <> v ->
+  getn (point_at s a v tp ap) x =
+    if Nat.eqb x v then option_map (fun n => with_aliases (aput ap a (naliases n)) n) (getn s v)
+    else if Nat.eqb x a then option_map (with_target (Some v) tp) (getn s a)
+    else getn s x.
+Proof.
+  intros s a v tp ap x Hne. unfold point_at, add_backref. rewrite getn_upd.
+  destruct (Nat.eqb v x) eqn:E1.
+  - apply Nat.eqb_eq in E1. subst x. rewrite Nat.eqb_refl. rewrite getn_upd.
+    destruct (Nat.eqb a v) eqn:E2; [apply Nat.eqb_eq in E2; congruence|reflexivity].
+  - rewrite Nat.eqb_sym in E1. rewrite E1. rewrite getn_upd. rewrite (Nat.eqb_sym x a).
+    destruct (Nat.eqb a x) eqn:E2; auto. apply Nat.eqb_eq in E2. subst. reflexivity.
+Qed.
+
+Lemma AInv_point_at : forall s a v tp ap, SInv s -> AInv s ->
+  a <> v -> path_of s a = POk ap -> kind_of s a = Some KAli -> kind_of s v <> None ->
+  (forall a' n', a' <> a -> get s RRoot ap = Ok a' -> getn s a' = Some n' -> ntarget n' <> Some v) ->
+  AInv (point_at s a v tp ap).
+Proof.
+  intros s a v tp ap HI HA Hne Pa Ka Kv Side.
+  pose proof (skel_eq_point_at s a v tp ap) as HS.
+  assert (Hal : forall t tn', getn (point_at s a v tp ap) t = Some tn' ->
+            exists tn, getn s t = Some tn /\
+              naliases tn' = if Nat.eqb t v then aput ap a (naliases tn) else naliases tn).
+  { intros t tn' G. rewrite getn_point_at in G by auto. destruct (Nat.eqb t v) eqn:E1.
+    - apply Nat.eqb_eq in E1. subst t. destruct (getn s v) as [tn|]; simpl in G; [|discriminate].
+      inversion G; subst tn'. exists tn. auto.
+    - destruct (Nat.eqb t a) eqn:E2.
+      + apply Nat.eqb_eq in E2. subst t. destruct (getn s a) as [tn|]; simpl in G; [|discriminate].
+        inversion G; subst tn'. exists tn. auto.
+      + exists tn'. auto. }
+  constructor.
+  - intros t tn' p x G Hin. destruct (Hal t tn' G) as [tn [G0 E]]. rewrite E in Hin.
+    rewrite <- (skel_eq_path s _ HS), <- (skel_eq_kind s _ HS).
+    destruct (Nat.eqb t v).
+    + apply In_aput in Hin. destruct Hin as [[E1 E2]|Hin].
+      * subst. split; assumption.
+      * exact (a_key s HA t tn p x G0 Hin).
+    + exact (a_key s HA t tn p x G0 Hin).
+  - intros t tn' G. destruct (Hal t tn' G) as [tn [G0 E]]. rewrite E.
+    destruct (Nat.eqb t v); [apply NoDup_aput|]; exact (a_nodup s HA t tn G0).
+  - intros p x n' t Hget G Ht. rewrite <- (skel_eq_get s _ HS) in Hget.
+    pose proof (retrievable s HI p x Hget) as Px.
+    rewrite getn_point_at in G by auto.
+    destruct (Nat.eqb x a) eqn:Exa.
+    + (* the retargeted alias itself *)
+      apply Nat.eqb_eq in Exa. subst x.
+      assert (Eav : Nat.eqb a v = false) by (apply Nat.eqb_neq; auto). rewrite Eav in G.
+      destruct (getn s a) as [n|] eqn:Ga; simpl in G; [|discriminate]. inversion G; subst n'. simpl in Ht.
+      inversion Ht; subst t. assert (p = ap) by congruence. subst p.
+      destruct (getn s v) as [vn|] eqn:Gv; [|unfold kind_of in Kv; rewrite Gv in Kv; simpl in Kv; congruence].
+      eexists. split.
+      * rewrite getn_point_at by auto. rewrite Nat.eqb_refl. rewrite Gv. simpl. reflexivity.
+      * simpl. apply alookup_put_same.
+    + (* any other reachable alias keeps its registration *)
+      apply Nat.eqb_neq in Exa.
+      assert (exists n, getn s x = Some n /\ ntarget n = Some t) as [n [Gx Tx]].
+      { destruct (Nat.eqb x v) eqn:Exv.
+        - apply Nat.eqb_eq in Exv. rewrite Exv.
+          destruct (getn s v) as [n|]; simpl in G; [|discriminate]. inversion G; subst n'. exists n. auto.
+        - exists n'. auto. }
+      destruct (a_back s HA p x n t Hget Gx Tx) as [tn [Gt Lk]].
+      destruct (Nat.eqb t v) eqn:Etv.
+      * apply Nat.eqb_eq in Etv. subst t.
+        assert (p <> ap). { intro; subst p. exact (Side x n Exa Hget Gx Tx). }
+        eexists. split.
+        -- rewrite getn_point_at by auto. rewrite Nat.eqb_refl. rewrite Gt. simpl. reflexivity.
+        -- simpl. rewrite alookup_put_other by auto. exact Lk.
+      * assert (exists tn', getn (point_at s a v tp ap) t = Some tn' /\ naliases tn' = naliases tn) as [tn' [Gt' Et']].
+        { rewrite getn_point_at by auto. rewrite Etv. destruct (Nat.eqb t a) eqn:Eta.
+          - apply Nat.eqb_eq in Eta. rewrite <- Eta. rewrite Gt. simpl. eexists. split; reflexivity.
+          - exists tn. auto. }
+        exists tn'. split; auto. rewrite Et'. exact Lk.
+  - intros x n' t G Ht. rewrite <- (skel_eq_kind s _ HS). rewrite getn_point_at in G by auto.
+    destruct (Nat.eqb x v) eqn:Exv.
+    + apply Nat.eqb_eq in Exv. subst x. destruct (getn s v) as [n|] eqn:Gv; simpl in G; [|discriminate].
+      inversion G; subst n'. simpl in Ht. exact (a_tgt s HA v n t Gv Ht).
+    + destruct (Nat.eqb x a) eqn:Exa.
+      * apply Nat.eqb_eq in Exa. subst x. destruct (getn s a) as [n|] eqn:Ga; simpl in G; [|discriminate].
+        inversion G; subst n'. simpl in Ht. inversion Ht; subst t. exact Kv.
+      * exact (a_tgt s HA x n' t G Ht).
+Qed.
+
+Lemma set_target_shape : forall s a v s', set_target s a v = Ok s' ->
+  exists vp ap, s' = point_at s a v vp ap /\ a <> v /\ path_of s a = POk ap /\ path_of s v = POk vp /\
+                kind_of s a = Some KAli /\ kind_of s v <> None /\ kind_of s v <> Some KAli.
+Proof.
+  intros s a v s' H. unfold set_target in H.
+  destruct (kind_of s a) as [[| | | |]|] eqn:Ka; try discriminate.
+  destruct (kind_of s v) as [kv|] eqn:Kv; try discriminate.
+  destruct (Nat.eqb v a) eqn:E; try discriminate. apply Nat.eqb_neq in E.
+  destruct (path_of s v) as [vp| |] eqn:Pv; try discriminate.
+  destruct (path_of s a) as [ap| |] eqn:Pa; try discriminate.
+  destruct (path_eqb vp ap); try discriminate.
+  destruct (is_ali kv) eqn:Av; try discriminate.
+  inversion H; subst. exists vp, ap. repeat split; auto; try discriminate.
+  intro K. inversion K; subst kv. discriminate.
+Qed.
+
+Lemma live_spec : forall s a, live s a = true -> exists p, path_of s a = POk p /\ get s RRoot p = Ok a.
+Proof.
+  intros s a H. unfold live in H. destruct (path_of s a) as [p| |]; try discriminate.
+  destruct (get s RRoot p) as [x|] eqn:G; try discriminate. apply Nat.eqb_eq in H. subst x. eauto.
+Qed.
+
+Lemma AInv_set_target_live : forall s a v s', SInv s -> AInv s -> live s a = true ->
+  set_target s a v = Ok s' -> AInv s'.
+Proof.
+  intros s a v s' HI HA Hl H. apply set_target_shape in H.
+  destruct H as [vp [ap [E [Hne [Pa [Pv [Ka [Kv _]]]]]]]]. subst s'.
+  apply live_spec in Hl. destruct Hl as [p [Pp Gp]]. assert (p = ap) by congruence. subst p.
+  apply AInv_point_at; auto.
+  intros a' n' Hn G' _. congruence.
+Qed.
+
+Lemma AInv_resolve_live : forall s a, SInv s -> AInv s -> live s a = true -> AInv (fst (resolve s a)).
+Proof.
+  intros s a HI HA Hl. unfold resolve.
+  destruct (getn s a) as [n|] eqn:Ga; [|exact HA].
+  destruct (negb (is_ali (nkind n))) eqn:An; [exact HA|].
+  destruct (has_mc s a); [|exact HA].
+  destruct (path_eqb (ntpath n) [""]); [exact HA|].
+  destruct (get s RRoot (ntpath n)) as [x|e]; [|destruct e; exact HA].
+  destruct (Nat.eqb x a) eqn:E; [exact HA|]. apply Nat.eqb_neq in E.
+  destruct (kind_of s x) as [kx|] eqn:Kx; [|exact HA].
+  destruct (is_ali kx); [exact HA|].
+  apply live_spec in Hl. destruct Hl as [p [Pp Gp]]. rewrite Pp. simpl.
+  change (AInv (point_at s a x (ntpath n) p)).
+  apply AInv_point_at; auto.
+  - unfold kind_of. rewrite Ga. simpl. apply negb_false_iff in An. destruct (nkind n); try discriminate. reflexivity.
+  - rewrite Kx. discriminate.
+  - intros a' n' Hn G' _. congruence.
+Qed.
+
+(* ---- the retargeting loop of set_member *)
+Lemma retarget_all_AInv : forall v ents s, SInv s -> AInv s ->
+  NoDup (map fst ents) ->
+  (forall p a, In (p, a) ents -> path_of s a = POk p) ->
+  (forall x n, getn s x = Some n -> ntarget n = Some v -> forall p a, In (p, a) ents -> path_of s x <> POk p) ->
+  AInv (fst (retarget_all s (map snd ents) v)).
+Proof.
+  intros v ents. induction ents as [|[p0 a0] r IH]; intros s HI HA Hnd Hp HQ; simpl; [exact HA|].
+  inversion Hnd as [|? ? Hn0 Hndr]; subst.
+  destruct (set_target s a0 v) as [s'|e] eqn:E.
+  - pose proof (skel_eq_set_target s a0 v s' E) as HS.
+    pose proof E as E0. apply set_target_shape in E. destruct E as [vp [ap [Es [Hne [Pa [Pv [Ka [Kv _]]]]]]]].
+    assert (ap = p0). { specialize (Hp p0 a0 (or_introl eq_refl)). congruence. } subst ap.
+    assert (HA' : AInv s').
+    { subst s'. apply AInv_point_at; auto.
+      intros a' n' Hn' G' Gn' T'. apply (HQ a' n' Gn' T' p0 a0 (or_introl eq_refl)).
+      exact (retrievable s HI p0 a' G'). }
+    apply IH; auto.
+    + apply (skel_eq_SInv s); auto.
+    + intros p a Hin. rewrite <- (skel_eq_path s s' HS). apply Hp. right. exact Hin.
+    + intros x n' Gx Tx p a Hin. rewrite <- (skel_eq_path s s' HS).
+      subst s'. rewrite getn_point_at in Gx by auto.
+      destruct (Nat.eqb x v) eqn:Exv.
+      * apply Nat.eqb_eq in Exv. subst x. destruct (getn s v) as [n|] eqn:Gv; simpl in Gx; [|discriminate].
+        inversion Gx; subst n'. simpl in Tx. apply (HQ v n Gv Tx p a). right. exact Hin.
+      * destruct (Nat.eqb x a0) eqn:Exa.
+        -- apply Nat.eqb_eq in Exa. subst x. rewrite Pa. intro Ep. inversion Ep; subst p.
+           apply Hn0. apply in_map_iff. exists (p0, a). auto.
+        -- apply (HQ x n' Gx Tx p a). right. exact Hin.
+  - assert (Hskip : AInv (fst (retarget_all s (map snd r) v))).
+    { apply IH; auto.
+      - intros p a Hin. apply Hp. right. exact Hin.
+      - intros x n Gx Tx p a Hin. apply (HQ x n Gx Tx p a). right. exact Hin. }
+    destruct e; simpl; auto.
+Qed.
+
+(* ---- nothing reachable is a detached node *)
+Lemma get_not_detached : forall s v, Detached s v -> forall p r x, get s r p = Ok x -> x <> v.
+Proof.
+  intros s v D p. induction p as [|k p IH]; intros r x H; [simpl in H; discriminate|].
+  cbn [get] in H. destruct (members_r s r) as [ms|] eqn:M; [|discriminate].
+  destruct (mlookup k ms) as [y|] eqn:L; [|discriminate].
+  destruct p as [|k2 p2].
+  - inversion H; subst y. intro E; subst x. destruct r as [|c].
+    + simpl in M. inversion M; subst. exact (d_noroot s v D k L).
+    + apply members_r_obj in M. destruct M as [n [G [_ E2]]]. subst ms. exact (d_nomem s v D c n k G L).
+  - eapply IH; eauto.
+Qed.
+
+(* ---- building a fresh object keeps the alias invariant *)
+Lemma AInv_app : forall s nd, SInv s -> AInv s -> nparent nd = None -> nmembers nd = [] -> naliases nd = [] ->
+  (forall x, ntarget nd = Some x -> kind_of s x <> None) ->
+  AInv (mkState (heap s ++ [nd]) (root s)).
+Proof.
+  intros s nd HI HA P M AL T. set (s1 := mkState (heap s ++ [nd]) (root s)).
+  destruct (SInv_app s nd HI P M) as [HI1 D1]. fold s1 in HI1, D1.
+  assert (Hold : forall i, i < List.length (heap s) -> getn s1 i = getn s i) by (intros; apply getn_app_lt; auto).
+  assert (Hpath : forall a, a < List.length (heap s) -> path_of s1 a = path_of s a).
+  { intros a Ha. symmetry. apply (path_of_ext s s1 (List.length (heap s)) (s_par s HI) (s_par s1 HI1)); auto.
+    - intros i Hi. rewrite Hold by auto. reflexivity.
+    - unfold s1. simpl. rewrite app_length. lia. }
+  assert (Hkind : forall a, kind_of s a <> None -> kind_of s1 a = kind_of s a /\ a < List.length (heap s)).
+  { intros a K. unfold kind_of in *. destruct (getn s a) as [n|] eqn:G; [|simpl in K; congruence].
+    pose proof (getn_lt _ _ _ G) as Hlt. rewrite Hold by auto. rewrite G. auto. }
+  assert (Hback : forall p x, get s1 RRoot p = Ok x -> get s RRoot p = Ok x /\ x < List.length (heap s)).
+  { intros p x H. pose proof (get_not_detached s1 _ D1 p RRoot x H) as Hx.
+    assert (G : get s RRoot p = Ok x).
+    { apply (get_backward s s1 (fun y => y = List.length (heap s))) with (r := RRoot); [ | | | exact I | exact H | exact Hx].
+      - intros k y L. right. exact L.
+      - intros i n' G' Hi A'. apply getn_app_old in G'. destruct G' as [[_ G']|[E _]]; [|contradiction].
+        exists n'. repeat split; auto.
+      - intros i n' Hi G'. subst i. unfold s1 in G'. rewrite getn_app_last in G'. inversion G'; subst. exact M. }
+    split; auto.
+    destruct (getn s x) as [n|] eqn:Gx; [eapply getn_lt; eauto|].
+    exfalso. clear -G Gx HI. revert G. generalize RRoot. induction p as [|k p IH]; intros r G; [simpl in G; discriminate|].
+    cbn [get] in G. destruct (members_r s r) as [ms|] eqn:Mr; [|discriminate].
+    destruct (mlookup k ms) as [y|] eqn:L; [|discriminate].
+    destruct p as [|k2 p2]; [|eapply IH; eauto].
+    inversion G; subst y. destruct r as [|c].
+    - simpl in Mr. inversion Mr; subst. destruct (s_root s HI k x L) as [n [Gn _]]. congruence.
+    - apply members_r_obj in Mr. destruct Mr as [n [Gc [_ E2]]]. subst ms.
+      destruct (s_mem s HI c n k x Gc L) as [n2 [Gn _]]. congruence. }
+  constructor.
+  - intros t tn p a G Hin. apply getn_app_old in G. destruct G as [[_ G]|[_ E]].
+    + destruct (a_key s HA t tn p a G Hin) as [Pa Ka].
+      assert (K : kind_of s a <> None) by (rewrite Ka; discriminate).
+      destruct (Hkind a K) as [K1 Hlt]. rewrite Hpath by auto. rewrite K1. auto.
+    + subst tn. rewrite AL in Hin. contradiction.
+  - intros t tn G. apply getn_app_old in G. destruct G as [[_ G]|[_ E]].
+    + exact (a_nodup s HA t tn G).
+    + subst tn. rewrite AL. constructor.
+  - intros p x n t H G Ht. destruct (Hback p x H) as [H0 Hlt]. rewrite Hold in G by auto.
+    destruct (a_back s HA p x n t H0 G Ht) as [tn [Gt Lk]]. exists tn. split; auto.
+    rewrite Hold; auto. eapply getn_lt; eauto.
+  - intros a n t G Ht. apply getn_app_old in G. destruct G as [[_ G]|[_ E]].
+    + pose proof (a_tgt s HA a n t G Ht) as K. destruct (Hkind t K) as [K1 _]. rewrite K1. exact K.
+    + subst n. pose proof (T t Ht) as K. destruct (Hkind t K) as [K1 _]. rewrite K1. exact K.
+Qed.
+
+(* ---- unlinking keeps the alias invariant *)
+Lemma npk_eq_path : forall s s', List.length (heap s) = List.length (heap s') ->
+  (forall i, option_map npk (getn s i) = option_map npk (getn s' i)) -> forall x, path_of s x = path_of s' x.
+Proof. intros s s' L H x. unfold path_of. rewrite L. apply pth_skel. exact H. Qed.
+
+Lemma AInv_unlink : forall s c k, SInv s -> AInv s -> AInv (unlink s c k).
+Proof.
+  intros s c k HI HA.
+  assert (Hn : forall x, exists f, getn (unlink s c k) x = option_map f (getn s x) /\
+             forall n, npk (f n) = npk n /\ naliases (f n) = naliases n /\ ntarget (f n) = ntarget n /\
+                       is_ali (nkind (f n)) = is_ali (nkind n) /\
+                       forall k' y, mlookup k' (nmembers (f n)) = Some y -> mlookup k' (nmembers n) = Some y).
+  { intro x. destruct c as [|i]; simpl.
+    - exists (fun n => n). split; [unfold getn; simpl; destruct (nth_error (heap s) x); reflexivity|]. intro n. repeat split; auto.
+    - rewrite getn_upd. destruct (Nat.eqb i x).
+      + eexists. split; [reflexivity|]. intro n. simpl. repeat split; auto. intros k' y. apply mlookup_del_Some.
+      + exists (fun n => n). split; [destruct (getn s x); reflexivity|]. intro n. repeat split; auto. }
+  assert (Hlen : List.length (heap s) = List.length (heap (unlink s c k))).
+  { destruct c; simpl; auto. rewrite upd_length. reflexivity. }
+  assert (Hpath : forall x, path_of s x = path_of (unlink s c k) x).
+  { apply npk_eq_path; auto. intro i. destruct (Hn i) as [f [E F]]. rewrite E.
+    destruct (getn s i) as [n|]; simpl; auto. destruct (F n) as [F1 _]. rewrite F1. reflexivity. }
+  assert (Hkind : forall x, kind_of (unlink s c k) x = kind_of s x).
+  { intro x. unfold kind_of. destruct (Hn x) as [f [E F]]. rewrite E. destruct (getn s x) as [n|]; simpl; auto.
+    destruct (F n) as [F1 _]. unfold npk in F1. inversion F1. reflexivity. }
+  assert (Hback : forall p x, get (unlink s c k) RRoot p = Ok x -> get s RRoot p = Ok x).
+  { intros p x H. apply (get_backward s (unlink s c k) (fun _ => False)) with (r := RRoot); [ | | | exact I | exact H | tauto].
+    - intros k' y L. right. destruct c; simpl in L; auto. apply mlookup_del_Some in L. exact L.
+    - intros i n' G _ A. destruct (Hn i) as [f [E F]]. rewrite E in G.
+      destruct (getn s i) as [n|]; simpl in G; [|discriminate]. inversion G; subst n'.
+      destruct (F n) as [_ [_ [_ [F4 F5]]]]. exists n. split; auto. split; [congruence|].
+      intros k' y L. right. auto.
+    - intros i n' []. }
+  constructor.
+  - intros t tn' p a G Hin. destruct (Hn t) as [f [E F]]. rewrite E in G.
+    destruct (getn s t) as [tn|] eqn:Gt; simpl in G; [|discriminate]. inversion G; subst tn'.
+    destruct (F tn) as [_ [F2 _]]. rewrite F2 in Hin. rewrite <- Hpath, Hkind. exact (a_key s HA t tn p a Gt Hin).
+  - intros t tn' G. destruct (Hn t) as [f [E F]]. rewrite E in G.
+    destruct (getn s t) as [tn|] eqn:Gt; simpl in G; [|discriminate]. inversion G; subst tn'.
+    destruct (F tn) as [_ [F2 _]]. rewrite F2. exact (a_nodup s HA t tn Gt).
+  - intros p x n' t H G Ht. apply Hback in H. destruct (Hn x) as [f [E F]]. rewrite E in G.
+    destruct (getn s x) as [n|] eqn:Gx; simpl in G; [|discriminate]. inversion G; subst n'.
+    destruct (F n) as [_ [_ [F3 _]]]. rewrite F3 in Ht.
+    destruct (a_back s HA p x n t H Gx Ht) as [tn [Gt Lk]].
+    destruct (Hn t) as [g [E2 F']]. exists (g tn). split; [rewrite E2, Gt; reflexivity|].
+    destruct (F' tn) as [_ [F2 _]]. rewrite F2. exact Lk.
+  - intros a n' t G Ht. destruct (Hn a) as [f [E F]]. rewrite E in G.
+    destruct (getn s a) as [n|] eqn:Ga; simpl in G; [|discriminate]. inversion G; subst n'.
+    destruct (F n) as [_ [_ [F3 _]]]. rewrite F3 in Ht. rewrite Hkind. exact (a_tgt s HA a n t Ga Ht).
+Qed.
+
+(* ---- linking a fresh object keeps the alias invariant *)
+Definition NoVal (s : state) (v : nat) : Prop :=
+  forall t tn p, getn s t = Some tn -> ~ In (p, v) (naliases tn).
+Definition Live (s : state) (i : nat) : Prop := exists p, get s RRoot p = Ok i.
+
+Lemma link_obj_node : forall s i k v x, i <> v ->
+  exists f, getn (link_obj s i k v) x = option_map f (getn s x) /\
+    forall n, naliases (f n) = naliases n /\ ntarget (f n) = ntarget n /\ nkind (f n) = nkind n /\
+              nname (f n) = nname n /\ (x <> v -> nparent (f n) = nparent n).
+Proof.
+  intros s i k v x Hne. rewrite getn_link_obj by auto.
+  destruct (Nat.eqb x v) eqn:E1.
+  - apply Nat.eqb_eq in E1. subst x. eexists. split; [reflexivity|]. intro n. simpl. repeat split; auto. congruence.
+  - destruct (Nat.eqb x i) eqn:E2.
+    + apply Nat.eqb_eq in E2. subst x. eexists. split; [reflexivity|]. intro n. simpl. repeat split; auto.
+    + exists (fun n => n). split; [destruct (getn s x); reflexivity|]. intro n. repeat split; auto.
+Qed.
+
+Lemma AInv_link_obj : forall s i cn k v vn s'', SInv s -> AInv s -> Detached s v -> NoVal s v ->
+  getn s i = Some cn -> is_ali (nkind cn) = false -> i <> v -> getn s v = Some vn -> nname vn = k -> Live s i ->
+  (forall t, ntarget vn = Some t -> nkind vn = KAli) ->
+  write_member s (RObj i) k v = Ok s'' -> AInv s''.
+Proof.
+  intros s i cn k v vn s'' HI HA D NV Gi Ai Hne Gv Nv [pi Gpi] Hali W.
+  set (s' := link_obj s i k v) in *.
+  pose proof (SInv_link_obj s i cn k v vn HI D Gi Hne Gv Nv) as HI'. fold s' in HI'.
+  destruct (d_node s v D) as [vn0 [Gv0 [Pv Mv]]]. rewrite Gv in Gv0. inversion Gv0; subst vn0. clear Gv0.
+  pose proof (d_last s v D) as Hlast.
+  assert (Hlen : List.length (heap s') = List.length (heap s)).
+  { unfold s', link_obj, upd_state. simpl. rewrite !upd_length. reflexivity. }
+  assert (Hnode := fun x => link_obj_node s i k v x Hne). fold s' in Hnode.
+  assert (Hkind : forall x, kind_of s' x = kind_of s x).
+  { intro x. unfold kind_of. destruct (Hnode x) as [f [E F]]. rewrite E. destruct (getn s x) as [n|]; simpl; auto.
+    destruct (F n) as [_ [_ [F3 _]]]. rewrite F3. reflexivity. }
+  assert (Hpath : forall x, x < v -> path_of s' x = path_of s x).
+  { intros x Hx. symmetry. apply (path_of_ext s s' v (s_par s HI) (s_par s' HI')); try lia.
+    intros j Hj. destruct (Hnode j) as [f [E F]]. rewrite E. destruct (getn s j) as [n|]; simpl; auto.
+    destruct (F n) as [_ [_ [F3 [F4 F5]]]]. unfold npk. rewrite F3, F4, F5 by lia. reflexivity. }
+  assert (Hback : forall p x, get s' RRoot p = Ok x -> x <> v -> get s RRoot p = Ok x).
+  { intros p x H Hx. apply (get_backward s s' (fun y => y = v)) with (r := RRoot); [ | | | exact I | exact H | exact Hx].
+    - intros k' y L. right. exact L.
+    - intros j n' G' Hj A'. unfold s' in G'. rewrite getn_link_obj in G' by auto.
+      apply Nat.eqb_neq in Hj. rewrite Hj in G'. destruct (Nat.eqb j i) eqn:Eji.
+      + apply Nat.eqb_eq in Eji. subst j. rewrite Gi in G'. simpl in G'. inversion G'; subst n'. simpl in *.
+        exists cn. repeat split; auto. intros k' y L. destruct (String.eqb k' k) eqn:Ek.
+        * apply String.eqb_eq in Ek. subst k'. rewrite mlookup_put_same in L. inversion L. left. reflexivity.
+        * apply String.eqb_neq in Ek. rewrite mlookup_put_other in L by auto. right. exact L.
+      + exists n'. repeat split; auto.
+    - intros j n' Hj G'. subst j. unfold s' in G'. rewrite getn_link_obj in G' by auto. rewrite Nat.eqb_refl in G'.
+      rewrite Gv in G'. simpl in G'. inversion G'; subst n'. simpl. exact Mv. }
+  assert (Ppi : path_of s i = POk pi) by (apply (retrievable s HI); exact Gpi).
+  assert (Hiv : i < v). { pose proof (getn_lt _ _ _ Gi). lia. }
+  assert (Pv' : path_of s' v = POk (pi ++ [k])).
+  { assert (Gv' : getn s' v = Some (with_parent (Some i) vn)).
+    { unfold s'. rewrite getn_link_obj by auto. rewrite Nat.eqb_refl. rewrite Gv. reflexivity. }
+    rewrite (path_of_unfold s' v _ (s_par s' HI') Gv'). unfold node_path. simpl.
+    rewrite (Hpath i Hiv). rewrite Ppi. rewrite Nv. reflexivity. }
+  assert (Honly : forall x, get s' RRoot (pi ++ [k]) = Ok x -> x = v).
+  { intros x H. assert (pi <> []) by (intro; subst pi; simpl in Gpi; discriminate).
+    rewrite get_app in H by (auto; discriminate).
+    destruct (get s' RRoot pi) as [c1|] eqn:G1; [|discriminate].
+    assert (c1 <> v).
+    { intro; subst c1. cbn [get] in H. simpl in H. unfold s' in H. rewrite getn_link_obj in H by auto.
+      rewrite Nat.eqb_refl in H. rewrite Gv in H. simpl in H.
+      destruct (is_ali (nkind vn)); [discriminate|]. rewrite Mv in H. simpl in H. discriminate. }
+    pose proof (Hback pi c1 G1 H1) as G0. rewrite Gpi in G0. inversion G0; subst c1.
+    cbn [get] in H. simpl in H. unfold s' in H. rewrite getn_link_obj in H by auto.
+    assert (E : Nat.eqb i v = false) by (apply Nat.eqb_neq; auto). rewrite E, Nat.eqb_refl, Gi in H. simpl in H.
+    rewrite Ai in H. rewrite mlookup_put_same in H. inversion H. reflexivity. }
+  (* the alias invariant of the linked state, the registration of v itself still pending *)
+  assert (Kkey : forall t tn' p a, getn s' t = Some tn' -> In (p, a) (naliases tn') ->
+             path_of s' a = POk p /\ kind_of s' a = Some KAli).
+  { intros t tn' p a G Hin. destruct (Hnode t) as [f [E F]]. rewrite E in G.
+    destruct (getn s t) as [tn|] eqn:Gt; simpl in G; [|discriminate]. inversion G; subst tn'.
+    destruct (F tn) as [F1 _]. rewrite F1 in Hin. destruct (a_key s HA t tn p a Gt Hin) as [Pa Ka].
+    assert (a <> v) by (intro; subst a; exact (NV t tn p Gt Hin)).
+    assert (a < v). { unfold kind_of in Ka. destruct (getn s a) eqn:Ga; [|discriminate]. pose proof (getn_lt _ _ _ Ga). lia. }
+    rewrite Hpath by auto. rewrite Hkind. auto. }
+  assert (Knodup : forall t tn', getn s' t = Some tn' -> NoDup (map fst (naliases tn'))).
+  { intros t tn' G. destruct (Hnode t) as [f [E F]]. rewrite E in G.
+    destruct (getn s t) as [tn|] eqn:Gt; simpl in G; [|discriminate]. inversion G; subst tn'.
+    destruct (F tn) as [F1 _]. rewrite F1. exact (a_nodup s HA t tn Gt). }
+  assert (Kback : forall p x n' t, get s' RRoot p = Ok x -> x <> v -> getn s' x = Some n' -> ntarget n' = Some t ->
+             exists tn', getn s' t = Some tn' /\ alookup p (naliases tn') = Some x).
+  { intros p x n' t H Hx G Ht. pose proof (Hback p x H Hx) as H0.
+    destruct (Hnode x) as [f [E F]]. rewrite E in G.
+    destruct (getn s x) as [n|] eqn:Gx; simpl in G; [|discriminate]. inversion G; subst n'.
+    destruct (F n) as [_ [F2 _]]. rewrite F2 in Ht.
+    destruct (a_back s HA p x n t H0 Gx Ht) as [tn [Gt Lk]].
+    destruct (Hnode t) as [g [E2 F']]. exists (g tn). split; [rewrite E2, Gt; reflexivity|].
+    destruct (F' tn) as [F1 _]. rewrite F1. exact Lk. }
+  assert (Ktgt : forall a n' t, getn s' a = Some n' -> ntarget n' = Some t -> kind_of s' t <> None).
+  { intros a n' t G Ht. destruct (Hnode a) as [f [E F]]. rewrite E in G.
+    destruct (getn s a) as [n|] eqn:Ga; simpl in G; [|discriminate]. inversion G; subst n'.
+    destruct (F n) as [_ [F2 _]]. rewrite F2 in Ht. rewrite Hkind. exact (a_tgt s HA a n t Ga Ht). }
+  assert (Gv' : getn s' v = Some (with_parent (Some i) vn)).
+  { unfold s'. rewrite getn_link_obj by auto. rewrite Nat.eqb_refl. rewrite Gv. reflexivity. }
+  assert (Plain : ntarget vn = None -> AInv s').
+  { intro Tn. constructor; auto.
+    intros p x n' t H G Ht. destruct (Nat.eq_dec x v) as [->|Hx]; [|eapply Kback; eauto].
+    rewrite Gv' in G. inversion G; subst n'. simpl in Ht. congruence. }
+  unfold write_member in W. fold (link_obj s i k v) in W. fold s' in W.
+  destruct (kind_of s v) as [kv|] eqn:Kv.
+  2:{ unfold kind_of in Kv. rewrite Gv in Kv. discriminate. }
+  assert (Reg : update_target_aliases s' v = Ok s'' -> AInv s'').
+  { clear W. intro W. unfold update_target_aliases in W. rewrite Gv' in W. simpl in W.
+    destruct (ntarget vn) as [t|] eqn:Tv; [|inversion W; subst s''; apply Plain; reflexivity].
+    rewrite Pv' in W. inversion W; subst s''. clear W.
+    set (pv := pi ++ [k]) in *.
+    pose proof (skel_eq_add_backref s' t pv v) as HS.
+    assert (Hn2 : forall x, getn (add_backref s' t pv v) x =
+                  if Nat.eqb t x then option_map (fun tn => with_aliases (aput pv v (naliases tn)) tn) (getn s' x)
+                  else getn s' x).
+    { intro x. unfold add_backref. apply getn_upd. }
+    assert (Kv' : kind_of s' v = Some KAli).
+    { rewrite Hkind. unfold kind_of. rewrite Gv. simpl. rewrite (Hali t eq_refl). reflexivity. }
+    constructor.
+    - intros t0 tn' p a G Hin. rewrite <- (skel_eq_path s' _ HS), <- (skel_eq_kind s' _ HS).
+      rewrite Hn2 in G. destruct (Nat.eqb t t0).
+      + destruct (getn s' t0) as [tn|] eqn:Gt; simpl in G; [|discriminate]. inversion G; subst tn'. simpl in Hin.
+        apply In_aput in Hin. destruct Hin as [[E1 E2]|Hin].
+        * subst p a. split; auto.
+        * eapply Kkey; eauto.
+      + eapply Kkey; eauto.
+    - intros t0 tn' G. rewrite Hn2 in G. destruct (Nat.eqb t t0).
+      + destruct (getn s' t0) as [tn|] eqn:Gt; simpl in G; [|discriminate]. inversion G; subst tn'. simpl.
+        apply NoDup_aput. eapply Knodup; eauto.
+      + eapply Knodup; eauto.
+    - intros p x n' t1 H G Ht. rewrite <- (skel_eq_get s' _ HS) in H.
+      assert (exists n1, getn s' x = Some n1 /\ ntarget n1 = Some t1) as [n1 [G1 T1]].
+      { rewrite Hn2 in G. destruct (Nat.eqb t x).
+        - destruct (getn s' x) as [n1|]; simpl in G; [|discriminate]. inversion G; subst n'. exists n1. auto.
+        - exists n'. auto. }
+      destruct (Nat.eq_dec x v) as [Ex|Hx].
+      + subst x. rewrite Gv' in G1. inversion G1; subst n1. simpl in T1. assert (t1 = t) by congruence. subst t1.
+        pose proof (retrievable s' HI' p v H) as Pp. assert (p = pv) by congruence. subst p.
+        pose proof (Ktgt v _ t Gv' Tv) as Kt. unfold kind_of in Kt.
+        destruct (getn s' t) as [tn|] eqn:Gt; [|simpl in Kt; congruence].
+        eexists. split; [rewrite Hn2, Nat.eqb_refl, Gt; reflexivity|]. simpl. apply alookup_put_same.
+      + destruct (Kback p x n1 t1 H Hx G1 T1) as [tn [Gt Lk]].
+        destruct (Nat.eqb t t1) eqn:Et.
+        * apply Nat.eqb_eq in Et. subst t1.
+          assert (p <> pv). { intro; subst p. apply Hx. apply Honly. exact H. }
+          eexists. split; [rewrite Hn2, Nat.eqb_refl, Gt; reflexivity|]. simpl.
+          rewrite alookup_put_other by auto. exact Lk.
+        * exists tn. split; [rewrite Hn2, Et; exact Gt | exact Lk].
+    - intros a n' t1 G Ht. rewrite <- (skel_eq_kind s' _ HS).
+      rewrite Hn2 in G. destruct (Nat.eqb t a).
+      + destruct (getn s' a) as [n1|] eqn:Ga; simpl in G; [|discriminate]. inversion G; subst n'. simpl in Ht.
+        eapply Ktgt; eauto.
+      + eapply Ktgt; eauto. }
+  assert (NoReg : kv <> KAli -> AInv s'').
+  { intro Hk. assert (s'' = s') by (destruct kv; try congruence; inversion W; reflexivity). subst s''.
+    apply Plain. destruct (ntarget vn) as [t|] eqn:Tv; auto. exfalso. apply Hk.
+    unfold kind_of in Kv. rewrite Gv in Kv. simpl in Kv. inversion Kv. exact (Hali t eq_refl). }
+  destruct kv; try (apply NoReg; discriminate). apply Reg. exact W.
+Qed.
+
+Lemma AInv_link_root : forall s k v vn, SInv s -> AInv s -> Detached s v ->
+  getn s v = Some vn -> ntarget vn = None -> AInv (link_root s k v).
+Proof.
+  intros s k v vn HI HA D Gv Tv. set (s' := link_root s k v).
+  destruct (d_node s v D) as [vn0 [Gv0 [Pv Mv]]]. rewrite Gv in Gv0. inversion Gv0; subst vn0. clear Gv0.
+  assert (Hnode : forall x, exists f, getn s' x = option_map f (getn s x) /\
+             forall n, npk (f n) = npk n /\ naliases (f n) = naliases n /\ ntarget (f n) = ntarget n /\
+                       nmembers (f n) = nmembers n).
+  { intro x. unfold s'. rewrite getn_link_root. destruct (Nat.eqb v x).
+    - eexists. split; [reflexivity|]. intro n. repeat split; auto.
+    - exists (fun n => n). split; [destruct (getn s x); reflexivity|]. intro n. repeat split; auto. }
+  assert (Hlen : List.length (heap s) = List.length (heap s')).
+  { unfold s', link_root. simpl. rewrite upd_length. reflexivity. }
+  assert (Hpath : forall x, path_of s x = path_of s' x).
+  { apply npk_eq_path; auto. intro i. destruct (Hnode i) as [f [E F]]. rewrite E.
+    destruct (getn s i) as [n|]; simpl; auto. destruct (F n) as [F1 _]. rewrite F1. reflexivity. }
+  assert (Hkind : forall x, kind_of s' x = kind_of s x).
+  { intro x. unfold kind_of. destruct (Hnode x) as [f [E F]]. rewrite E. destruct (getn s x) as [n|]; simpl; auto.
+    destruct (F n) as [F1 _]. unfold npk in F1. inversion F1. reflexivity. }
+  assert (Hback : forall p x, get s' RRoot p = Ok x -> x <> v -> get s RRoot p = Ok x).
+  { intros p x H Hx. apply (get_backward s s' (fun y => y = v)) with (r := RRoot); [ | | | exact I | exact H | exact Hx].
+    - intros k' y L. unfold s', link_root in L. simpl in L. destruct (String.eqb k' k) eqn:Ek.
+      + apply String.eqb_eq in Ek. subst k'. rewrite mlookup_put_same in L. inversion L. left. reflexivity.
+      + apply String.eqb_neq in Ek. rewrite mlookup_put_other in L by auto. right. exact L.
+    - intros j n' G' Hj A'. destruct (Hnode j) as [f [E F]]. rewrite E in G'.
+      destruct (getn s j) as [n|]; simpl in G'; [|discriminate]. inversion G'; subst n'.
+      destruct (F n) as [F1 [_ [_ F4]]]. exists n. split; auto. unfold npk in F1. inversion F1 as [[E1 E2 E3]].
+      split; [congruence|]. intros k' y L. right. rewrite F4 in L. exact L.
+    - intros j n' Hj G'. subst j. destruct (Hnode v) as [f [E F]]. rewrite E, Gv in G'. simpl in G'.
+      inversion G'; subst n'. destruct (F vn) as [_ [_ [_ F4]]]. rewrite F4. exact Mv. }
+  constructor.
+  - intros t tn' p a G Hin. destruct (Hnode t) as [f [E F]]. rewrite E in G.
+    destruct (getn s t) as [tn|] eqn:Gt; simpl in G; [|discriminate]. inversion G; subst tn'.
+    destruct (F tn) as [_ [F2 _]]. rewrite F2 in Hin. rewrite <- Hpath, Hkind. exact (a_key s HA t tn p a Gt Hin).
+  - intros t tn' G. destruct (Hnode t) as [f [E F]]. rewrite E in G.
+    destruct (getn s t) as [tn|] eqn:Gt; simpl in G; [|discriminate]. inversion G; subst tn'.
+    destruct (F tn) as [_ [F2 _]]. rewrite F2. exact (a_nodup s HA t tn Gt).
+  - intros p x n' t H G Ht. destruct (Hnode x) as [f [E F]]. rewrite E in G.
+    destruct (getn s x) as [n|] eqn:Gx; simpl in G; [|discriminate]. inversion G; subst n'.
+    destruct (F n) as [_ [_ [F3 _]]]. rewrite F3 in Ht.
+    destruct (Nat.eq_dec x v) as [Ex|Hx]; [subst x; rewrite Gv in Gx; inversion Gx; subst n; congruence|].
+    pose proof (Hback p x H Hx) as H0.
+    destruct (a_back s HA p x n t H0 Gx Ht) as [tn [Gt Lk]].
+    destruct (Hnode t) as [g [E2 F']]. exists (g tn). split; [rewrite E2, Gt; reflexivity|].
+    destruct (F' tn) as [_ [F2 _]]. rewrite F2. exact Lk.
+  - intros a n' t G Ht. destruct (Hnode a) as [f [E F]]. rewrite E in G.
+    destruct (getn s a) as [n|] eqn:Ga; simpl in G; [|discriminate]. inversion G; subst n'.
+    destruct (F n) as [_ [_ [F3 _]]]. rewrite F3 in Ht. rewrite Hkind. exact (a_tgt s HA a n t Ga Ht).
+Qed.
+
+(* ---- frame of the retargeting loop: v's own target, and "v is nobody's back-reference value" *)
+Lemma retarget_all_frame : forall v als s,
+  NoVal s v -> NoVal (fst (retarget_all s als v)) v /\
+  option_map ntarget (getn (fst (retarget_all s als v)) v) = option_map ntarget (getn s v).
+Proof.
+  intros v als. induction als as [|a r IH]; intros s NV; simpl; [auto|].
+  destruct (set_target s a v) as [s'|e] eqn:E.
+  - apply set_target_shape in E. destruct E as [vp [ap [Es [Hne _]]]].
+    assert (NV' : NoVal s' v).
+    { subst s'. intros t tn' p G Hin. rewrite getn_point_at in G by auto. destruct (Nat.eqb t v) eqn:Etv.
+      - destruct (getn s v) as [tn|] eqn:Gv; simpl in G; [|discriminate]. inversion G; subst tn'. simpl in Hin.
+        apply In_aput in Hin. destruct Hin as [[_ E2]|Hin]; [congruence|]. exact (NV v tn p Gv Hin).
+      - destruct (Nat.eqb t a) eqn:Eta.
+        + destruct (getn s a) as [tn|] eqn:Ga; simpl in G; [|discriminate]. inversion G; subst tn'. simpl in Hin.
+          apply Nat.eqb_eq in Eta. subst t. exact (NV a tn p Ga Hin).
+        + exact (NV t tn' p G Hin). }
+    destruct (IH s' NV') as [H1 H2]. split; auto. rewrite H2. subst s'.
+    rewrite getn_point_at by auto. rewrite Nat.eqb_refl. destruct (getn s v); reflexivity.
+  - destruct e; simpl; auto.
+Qed.
+
+Lemma locate_live : forall s p r i k, locate s r p = Ok (RObj i, k) ->
+  (r = RRoot \/ exists j, r = RObj j /\ Live s j) -> Live s i.
+Proof.
+  intros s p. induction p as [|k0 p IH]; intros r i k H Hr; simpl in H; [discriminate|].
+  destruct (members_r s r) as [ms|] eqn:M; [|discriminate].
+  destruct p as [|k1 p1].
+  - inversion H; subst r k0. destruct Hr as [Hr|[j [Hr Lj]]]; [discriminate|]. inversion Hr; subst. exact Lj.
+  - destruct (mlookup k0 ms) as [x|] eqn:L; [|discriminate].
+    apply (IH (RObj x) i k H). right. exists x. split; auto.
+    destruct Hr as [Hr|[j [Hr [pj Gj]]]]; subst r.
+    + exists [k0]. cbn [get]. rewrite M, L. reflexivity.
+    + exists (pj ++ [k0]). assert (pj <> []) by (intro; subst pj; simpl in Gj; discriminate).
+      rewrite get_app by (auto; discriminate). rewrite Gj. cbn [get]. rewrite M, L. reflexivity.
+Qed.
+
+Lemma get_forward_app : forall s nd p r x, get s r p = Ok x -> get (mkState (heap s ++ [nd]) (root s)) r p = Ok x.
+Proof.
+  intros s nd p. induction p as [|k p IH]; intros r x H; [simpl in H; discriminate|].
+  cbn [get] in *. destruct (members_r s r) as [ms|] eqn:M; [|discriminate].
+  assert (M1 : members_r (mkState (heap s ++ [nd]) (root s)) r = Ok ms).
+  { destruct r as [|i]; simpl in *; auto. destruct (getn s i) as [n|] eqn:G; [|discriminate].
+    rewrite getn_app_lt by (eapply getn_lt; eauto). rewrite G. exact M. }
+  rewrite M1. destruct (mlookup k ms) as [y|]; [|discriminate]. destruct p; auto.
+Qed.
+
+Lemma AInv_set_value_fresh : forall s a r p v vn, SInv s -> AInv s -> Detached s v -> NoVal s v ->
+  (forall x n, getn s x = Some n -> ntarget n <> Some v) ->
+  getn s v = Some vn -> r <> RObj v -> nname vn = last p "" ->
+  (forall t, ntarget vn = Some t -> nkind vn = KAli) ->
+  (r = RRoot -> (exists k, p = [k]) -> is_ali (nkind vn) = false) ->
+  (r = RRoot \/ exists j, r = RObj j /\ Live s j) ->
+  AInv (fst (set_value s a r p v)).
+Proof.
+  intros s a r p v vn HI HA D NV NT Gv Hr Nv Hali Av Lr. unfold set_value. rewrite Gv.
+  destruct (locate s r p) as [[c k]|e] eqn:Lc; [|exact HA].
+  destruct (members_r s c) as [ms|e] eqn:M; [|exact HA].
+  pose proof (locate_key s p r c k Lc) as Hk.
+  assert (Hpost : forall s1 e1, skel_eq s s1 -> AInv s1 -> NoVal s1 v ->
+     option_map ntarget (getn s1 v) = option_map ntarget (getn s v) ->
+     AInv (fst (match e1 with
+                | Some e => (s1, Some e)
+                | None => match write_member s1 c k v with Ok s2 => (s2, None) | Err e => (s1, Some e) end
+                end))).
+  { intros s1 e1 H1 HA1 NV1 T1. pose proof (skel_eq_SInv s s1 H1 HI) as HI1.
+    destruct e1; simpl; auto.
+    destruct (write_member s1 c k v) as [s2|e] eqn:W; simpl; auto.
+    pose proof (Detached_skel_eq s s1 v H1 D) as D1.
+    destruct (skel_eq_node s1 s v vn (skel_eq_sym _ _ H1) Gv) as [vn1 [Gv1 Ev]].
+    unfold skel in Ev. inversion Ev as [[E1 E2 E3 E4 E5]].
+    assert (Tv1 : ntarget vn1 = ntarget vn). { rewrite Gv1, Gv in T1. simpl in T1. congruence. }
+    destruct c as [|i].
+    - unfold write_member in W. inversion W; subst s2. fold (link_root s1 k v).
+      apply locate_root in Lc. destruct Lc as [Er Ep]. subst r p.
+      apply (AInv_link_root s1 k v vn1 HI1 HA1 D1 Gv1). rewrite Tv1.
+      destruct (ntarget vn) as [t|] eqn:Tv; auto. exfalso.
+      assert (A : is_ali (nkind vn) = false) by (apply Av; eauto). rewrite (Hali t eq_refl) in A. discriminate.
+    - pose proof (locate_not_detached s v D p r i k Hr Lc) as Hiv.
+      pose proof (locate_live s p r i k Lc Lr) as [pi Gpi].
+      rewrite (skel_eq_members_r s s1 H1) in M. apply members_r_obj in M. destruct M as [cn [Gi [Ai _]]].
+      apply (AInv_link_obj s1 i cn k v vn1 s2 HI1 HA1 D1 NV1 Gi Ai Hiv Gv1); auto.
+      + rewrite E1, Nv. symmetry. exact Hk.
+      + exists pi. rewrite <- (skel_eq_get s s1 H1). exact Gpi.
+      + intros t Ht. rewrite E2. apply (Hali t). congruence. }
+  assert (Hnone : AInv (fst (match write_member s c k v with Ok s2 => (s2, None) | Err e => (s, Some e) end))).
+  { exact (Hpost s None (skel_eq_refl s) HA NV eq_refl). }
+  destruct a; [|destruct (mlookup k ms); exact Hnone].
+  destruct (mlookup k ms) as [m|]; [|exact Hnone].
+  unfold replace_prelude. rewrite Gv.
+  destruct (getn s m) as [mn|] eqn:Gm; [|exact HA].
+  destruct (is_ali (nkind mn)); [exact Hnone|].
+  destruct (is_mod (nkind mn) && is_ali (nkind vn)); [exact HA|].
+  pose proof (skel_eq_retarget_all (map snd (naliases mn)) s v) as HS.
+  pose proof (retarget_all_frame v (map snd (naliases mn)) s NV) as [NV2 T2].
+  assert (HA2 : AInv (fst (retarget_all s (map snd (naliases mn)) v))).
+  { apply retarget_all_AInv; auto.
+    - exact (a_nodup s HA m mn Gm).
+    - intros p0 a0 Hin. exact (proj1 (a_key s HA m mn p0 a0 Gm Hin)).
+    - intros x n Gx Tx. exfalso. exact (NT x n Gx Tx). }
+  destruct (retarget_all s (map snd (naliases mn)) v) as [s1 e1]. simpl in *.
+  exact (Hpost s1 e1 HS HA2 NV2 T2).
+Qed.
+
+(* ================================================================ F. every top-down operation keeps both invariants *)
+
+Definition Inv (s : state) : Prop := SInv s /\ AInv s.
+
+Lemma recv_live_spec : forall s r, recv_live s r = true -> r = RRoot \/ exists j, r = RObj j /\ Live s j.
+Proof.
+  intros s [|j] H; [left; reflexivity|]. right. exists j. split; auto.
+  simpl in H. apply live_spec in H. destruct H as [p [_ G]]. exists p. exact G.
+Qed.
+
+Lemma top_down_new_recv : forall s a r p k t, top_down s (ONew a r p k t) = true -> recv_live s r = true.
+Proof.
+  intros s a r p k t H. simpl in H. destruct r as [|j]; [reflexivity|]. exact H.
+Qed.
+
+Lemma AInv_step : forall s o, SInv s -> AInv s -> top_down s o = true -> AInv (fst (step s o)).
+Proof.
+  intros s o HI HA Htd. destruct o as [k n t|a r p v|a r p k t|a r p|a|a v]; try (simpl in Htd; discriminate); simpl.
+  - destruct (recv_exists s r) eqn:Re; simpl; [|exact HA].
+    destruct (alloc s k (last p "") t) as [s1 e] eqn:Al.
+    apply alloc_cases in Al. destruct Al as [[E1 E2]|[E1 [nd [E2 [P [M [N [K [AL T]]]]]]]]].
+    + subst s1. destruct e; [exact HA|congruence].
+    + subst e. destruct (SInv_app s nd HI P M) as [HI1 D1]. rewrite <- E2 in HI1, D1.
+      assert (HA1 : AInv s1).
+      { subst s1. apply AInv_app; auto. intros x Hx. exact (proj1 (proj2 (T x Hx))). }
+      assert (Gv : getn s1 (List.length (heap s)) = Some nd) by (subst s1; apply getn_app_last).
+      assert (Hold : forall i n0, getn s1 i = Some n0 -> i <> List.length (heap s) -> getn s i = Some n0).
+      { intros i n0 G Hi. subst s1. apply getn_app_old in G. destruct G as [[_ G]|[E _]]; [exact G|contradiction]. }
+      apply (AInv_set_value_fresh s1 a r p (List.length (heap s)) nd HI1 HA1 D1); auto.
+      * (* NoVal *)
+        intros t0 tn p0 G Hin. destruct (a_key s1 HA1 t0 tn p0 _ G Hin) as [_ Kk].
+        destruct (Nat.eq_dec t0 (List.length (heap s))) as [Et|Et].
+        -- subst t0. rewrite Gv in G. inversion G; subst tn. rewrite AL in Hin. contradiction.
+        -- pose proof (Hold t0 tn G Et) as G0. destruct (a_key s HA t0 tn p0 _ G0 Hin) as [_ K0].
+           unfold kind_of in K0. destruct (getn s (List.length (heap s))) eqn:Gx; [|discriminate].
+           apply getn_lt in Gx. lia.
+      * (* nobody targets the fresh object *)
+        intros x n0 G Tx. destruct (Nat.eq_dec x (List.length (heap s))) as [Ex|Ex].
+        -- subst x. rewrite Gv in G. inversion G; subst n0. destruct (T _ Tx) as [_ [K1 _]].
+           unfold kind_of in K1. destruct (getn s (List.length (heap s))) eqn:Gx; [|simpl in K1; congruence].
+           apply getn_lt in Gx. lia.
+        -- pose proof (Hold x n0 G Ex) as G0. pose proof (a_tgt s HA x n0 _ G0 Tx) as K1.
+           unfold kind_of in K1. destruct (getn s (List.length (heap s))) eqn:Gx; [|simpl in K1; congruence].
+           apply getn_lt in Gx. lia.
+      * destruct r as [|i]; [discriminate|]. simpl in Re. apply Nat.ltb_lt in Re. intro E. inversion E. lia.
+      * intros t0 Ht. rewrite K. exact (proj1 (T t0 Ht)).
+      * intros Hr Hp. rewrite K. exact (top_down_new_root_kind s a r p k t Htd Hr Hp).
+      * pose proof (top_down_new_recv s a r p k t Htd) as Lr. apply recv_live_spec in Lr.
+        destruct Lr as [Lr|[j [Lr [pj Gj]]]]; [left; exact Lr|]. right. exists j. split; auto.
+        exists pj. subst s1. apply get_forward_app. exact Gj.
+  - unfold del_value. destruct (locate s r p) as [[c k]|e]; [|exact HA].
+    destruct (get_at s c k); [|exact HA].
+    assert (E : fst (match c with
+                     | RRoot => (mkState (heap s) (mdel k (root s)), @None err)
+                     | RObj i => (upd_state s i (fun n => with_members (mdel k (nmembers n)) n), None)
+                     end) = unlink s c k) by (destruct c; reflexivity).
+    rewrite E. apply AInv_unlink; auto.
+  - apply AInv_resolve_live; auto.
+  - destruct (set_target s a v) as [s'|e] eqn:E; simpl; [|exact HA].
+    eapply AInv_set_target_live; eauto.
+Qed.
+
+Theorem inv_init : Inv init.
+Proof. split; [apply SInv_init | apply AInv_init]. Qed.
+
+Theorem inv_step : forall s o, Inv s -> top_down s o = true -> Inv (fst (step s o)).
+Proof. intros s o [HI HA] H. split; [apply SInv_step | apply AInv_step]; auto. Qed.
+
+Lemma inv_run : forall ops s, Inv s -> all_top_down s ops = true -> Inv (run s ops).
+Proof.
+  induction ops as [|o r IH]; intros s HI H; [exact HI|].
+  simpl in H. apply andb_true_iff in H. destruct H as [H1 H2]. rewrite run_cons. apply IH; auto. apply inv_step; auto.
+Qed.
+
+Theorem inv_reachable : forall ops, all_top_down init ops = true -> Inv (run init ops).
+Proof. intros ops H. apply inv_run; auto. apply inv_init. Qed.
+
+(* ---- the clauses of the property as consequences of Inv *)
+Definition Backref (s : state) : Prop :=
+  forall p a n t, get s RRoot p = Ok a -> getn s a = Some n -> ntarget n = Some t ->
+  path_of s a = POk p /\ exists tn, getn s t = Some tn /\ alookup p (naliases tn) = Some a.
+
+Lemma inv_backref : forall s, Inv s -> Backref s.
+Proof.
+  intros s [HI HA] p a n t H G T. split; [apply (retrievable s HI); exact H|]. exact (a_back s HA p a n t H G T).
+Qed.
+
+Theorem backref_listed_modulo_known : forall ops, known_gap ops = false -> Backref (run init ops).
+Proof.
+  intros ops H. apply inv_backref. apply inv_reachable. unfold known_gap in H. apply negb_false_iff in H. exact H.
+Qed.
+
+(* ================================================================ G. the known gap: bottom-up construction *)
+
+Definition witness_F1 : list op :=
+  [ ONew Producer RRoot ["m"] KMod TNone;
+    ONew Producer RRoot ["m"; "f"] KFun TNone;
+    OAlloc KCls "C" TNone;                       (* a class built away from the tree ... *)
+    OAlloc KAli "al" (TObj 1);                   (* ... an alias to m.f ... *)
+    OSet Producer (RObj 2) ["al"] 3;             (* ... put into the detached class: registered as 'C.al' *)
+    OSet Producer RRoot ["m"; "C"] 2 ].          (* the class is attached: the alias is now m.C.al *)
+
+Theorem backref_listed_refuted : exists ops, known_gap ops = true /\ ~ Backref (run init ops).
+Proof.
+  exists witness_F1. split; [vm_compute; reflexivity|].
+  intro HB.
+  assert (G : get (run init witness_F1) RRoot ["m"; "C"; "al"] = Ok 3) by (vm_compute; reflexivity).
+  destruct (getn (run init witness_F1) 3) as [n|] eqn:Gn; [|vm_compute in Gn; discriminate].
+  assert (T : ntarget n = Some 1) by (vm_compute in Gn; inversion Gn; reflexivity).
+  destruct (HB _ _ _ _ G Gn T) as [_ [tn [Gt Lk]]].
+  vm_compute in Gt. inversion Gt; subst tn. vm_compute in Lk. discriminate.
+Qed.
+
+(* the stale key the implementation leaves behind *)
+Example witness_F1_stale_key :
+  option_map naliases (getn (run init witness_F1) 1) = Some [(["C"; "al"], 3)] /\
+  path_of (run init witness_F1) 3 = POk ["m"; "C"; "al"].
+Proof. vm_compute. split; reflexivity. Qed.
+
+(* ---- the hypotheses are satisfiable: a top-down history with a resolved alias and a replacement *)
+Definition sample_top_down : list op :=
+  [ ONew Producer RRoot ["m"] KMod TNone;
+    ONew Producer RRoot ["m"; "f"] KFun TNone;
+    ONew Producer RRoot ["m"; "C"] KCls TNone;
+    ONew Consumer (RObj 2) ["al"] KAli (TStr ["m"; "f"]);
+    OResolve 3;
+    ONew Producer (RObj 0) ["f"] KFun TNone;       (* replaces m.f: the alias follows *)
+    ODel Consumer RRoot ["m"; "C"; "al"] ].
+
+Example sample_is_top_down : all_top_down init sample_top_down = true.
+Proof. vm_compute. reflexivity. Qed.
+
+Example sample_alias_followed :
+  option_map ntarget (getn (run init (firstn 6 sample_top_down)) 3) = Some (Some 4) /\
+  option_map naliases (getn (run init (firstn 6 sample_top_down)) 4) = Some [(["m"; "C"; "al"], 3)].
+Proof. vm_compute. split; reflexivity. Qed.
+
+(* ================================================================ H. dotted string = tuple of names *)
+
+Fixpoint nodotb (s : string) : bool :=
+  match s with EmptyString => true | String c r => negb (Ascii.eqb c dot) && nodotb r end.
+
+Lemma append_empty_r : forall s : string, (s ++ "")%string = s.
+Proof. induction s as [|c r IH]; simpl; [reflexivity|rewrite IH; reflexivity]. Qed.
+
+Lemma split_dot_aux_app : forall x cur tl, nodotb x = true ->
+  split_dot_aux (x ++ tl)%string cur = split_dot_aux tl (fun y => cur (x ++ y)%string).
+Proof.
+  induction x as [|c x IH]; intros cur tl H; simpl; [reflexivity|].
+  simpl in H. apply andb_true_iff in H. destruct H as [H1 H2]. apply negb_true_iff in H1. rewrite H1.
+  rewrite IH by exact H2. reflexivity.
+Qed.
+
+Lemma split_join : forall l, l <> [] -> forallb nodotb l = true -> split_dot (join_dot l) = l.
+Proof.
+  induction l as [|x r IH]; intros Hne H; [congruence|].
+  simpl in H. apply andb_true_iff in H. destruct H as [Hx Hr].
+  destruct r as [|y r'].
+  - simpl. unfold split_dot. rewrite <- (append_empty_r x) at 1. rewrite split_dot_aux_app by exact Hx.
+    simpl. rewrite append_empty_r. reflexivity.
+  - change (join_dot (x :: y :: r')) with (x ++ String dot (join_dot (y :: r')))%string.
+    unfold split_dot. rewrite split_dot_aux_app by exact Hx. cbn [split_dot_aux]. unfold dot at 1. simpl Ascii.eqb. cbv iota.
+    rewrite append_empty_r. f_equal. apply IH; [discriminate|exact Hr].
+Qed.
+
+Theorem parts_dotted_eq_tuple : forall l, l <> [] -> forallb nodotb l = true -> join_dot l <> ""%string ->
+  get_parts (KStr (join_dot l)) = get_parts (KSeq l).
+Proof.
+  intros l Hne H Hs. unfold get_parts. destruct (join_dot l) eqn:E; [congruence|].
+  rewrite <- E. rewrite split_join by auto. destruct l; [congruence|reflexivity].
+Qed.
+
+(* the only keys on which the two forms differ: the empty string is rejected, the tuple [""] is a lookup of "" *)
+Example parts_empty_string_differs : get_parts (KStr "") = Err EValue /\ get_parts (KSeq [""%string]) = Ok [""%string].
+Proof. split; reflexivity. Qed.
+
+(* ================================================================ I. aliases follow a set_member replacement *)
+
+Lemma pth_ok_nonempty : forall h f x p, pth h f x = POk p -> p <> [].
+Proof.
+  intros h f x p H. destruct f as [|f]; simpl in H; [discriminate|].
+  destruct (nth_error h x) as [n|]; [|discriminate].
+  destruct (nparent n) as [c|].
+  - destruct (pth h f c); try discriminate. inversion H. intro E. apply app_eq_nil in E. destruct E; discriminate.
+  - destruct (is_ali (nkind n)); [discriminate|]. inversion H. discriminate.
+Qed.
+
+Lemma alias_path_len : forall s a n ap, getn s a = Some n -> nkind n = KAli -> path_of s a = POk ap -> 2 <= List.length ap.
+Proof.
+  intros s a n ap G K H. unfold path_of in H. destruct (List.length (heap s)) as [|f]; simpl in H; [discriminate|].
+  unfold getn in G. rewrite G in H. rewrite K in H. simpl in H.
+  destruct (nparent n) as [c|]; [|discriminate].
+  destruct (pth (heap s) f c) as [pp| |] eqn:P; try discriminate. inversion H.
+  apply pth_ok_nonempty in P. rewrite app_length. simpl. destruct pp; [congruence|simpl; lia].
+Qed.
+
+Lemma path_eqb_length : forall p q, path_eqb p q = true -> List.length p = List.length q.
+Proof. intros p q H. apply path_eqb_eq in H. congruence. Qed.
+
+Lemma set_target_not_cyclic : forall s a v, a <> v ->
+  (forall vp, path_of s v = POk vp -> List.length vp = 1) -> set_target s a v <> Err ECyclic.
+Proof.
+  intros s a v Hne Hv H. unfold set_target in H.
+  destruct (kind_of s a) as [[| | | |]|] eqn:Ka; try discriminate.
+  destruct (kind_of s v) as [kv|]; try discriminate.
+  destruct (Nat.eqb v a) eqn:E; [apply Nat.eqb_eq in E; congruence|].
+  destruct (path_of s v) as [vp| |] eqn:Pv; try discriminate.
+  destruct (path_of s a) as [ap| |] eqn:Pa; try discriminate.
+  destruct (path_eqb vp ap) eqn:Ep.
+  - apply path_eqb_length in Ep. rewrite (Hv vp eq_refl) in Ep.
+    unfold kind_of in Ka. destruct (getn s a) as [n|] eqn:Ga; [|discriminate]. simpl in Ka. inversion Ka.
+    pose proof (alias_path_len s a n ap Ga H1 Pa). lia.
+  - destruct (is_ali kv); discriminate.
+Qed.
+
+Lemma retarget_all_keeps : forall v als s a,
+  (exists n, getn s a = Some n /\ ntarget n = Some v) ->
+  exists n, getn (fst (retarget_all s als v)) a = Some n /\ ntarget n = Some v.
+Proof.
+  intros v als. induction als as [|a0 r IH]; intros s a H; simpl; [exact H|].
+  destruct (set_target s a0 v) as [s'|e] eqn:E.
+  - apply IH. apply set_target_shape in E. destruct E as [vp [ap [Es [Hne _]]]]. subst s'.
+    destruct H as [n [G T]]. rewrite getn_point_at by auto.
+    destruct (Nat.eqb a v) eqn:E1.
+    + apply Nat.eqb_eq in E1. subst a. rewrite G. simpl. eexists. split; [reflexivity|]. exact T.
+    + destruct (Nat.eqb a a0) eqn:E2.
+      * apply Nat.eqb_eq in E2. subst a. rewrite G. simpl. eexists. split; [reflexivity|]. reflexivity.
+      * exists n. auto.
+  - destruct e; simpl; auto.
+Qed.
+
+Lemma retarget_all_sets : forall v als s s2,
+  retarget_all s als v = (s2, None) ->
+  (forall a s0, In a als -> skel_eq s s0 -> set_target s0 a v <> Err ECyclic) ->
+  forall a, In a als -> exists n, getn s2 a = Some n /\ ntarget n = Some v.
+Proof.
+  intros v als. induction als as [|a0 r IH]; intros s s2 H NC a Hin; [contradiction|].
+  simpl in H. destruct (set_target s a0 v) as [s'|e] eqn:E.
+  - pose proof (skel_eq_set_target s a0 v s' E) as HS.
+    destruct Hin as [Ea|Hin].
+    + subst a0. pose proof (retarget_all_keeps v r s' a) as K. rewrite H in K. simpl in K. apply K.
+      apply set_target_shape in E. destruct E as [vp [ap [Es [Hne [_ [_ [Ka _]]]]]]]. subst s'.
+      rewrite getn_point_at by auto. assert (Eav : Nat.eqb a v = false) by (apply Nat.eqb_neq; auto).
+      rewrite Eav, Nat.eqb_refl.
+      unfold kind_of in Ka. destruct (getn s a) as [n|] eqn:G; [|discriminate].
+      simpl. eexists. split; reflexivity.
+    + apply (IH s' s2 H); auto.
+      intros a1 s0 Hin1 HS0. apply NC; [right; exact Hin1|]. eapply skel_eq_trans; eauto.
+  - destruct e; try discriminate.
+    exfalso. exact (NC a0 s (or_introl eq_refl) (skel_eq_refl s) E).
+Qed.
+
+Lemma members_r_forward_app : forall s nd c ms, members_r s c = Ok ms ->
+  members_r (mkState (heap s ++ [nd]) (root s)) c = Ok ms.
+Proof.
+  intros s nd c ms M. destruct c as [|i]; simpl in *; auto. destruct (getn s i) as [n|] eqn:G; [|discriminate].
+  rewrite getn_app_lt by (eapply getn_lt; eauto). rewrite G. exact M.
+Qed.
+
+Lemma locate_forward_app : forall s nd p r c k, locate s r p = Ok (c, k) ->
+  locate (mkState (heap s ++ [nd]) (root s)) r p = Ok (c, k).
+Proof.
+  intros s nd p. induction p as [|k0 p IH]; intros r c k H; simpl in H; [discriminate|].
+  destruct (members_r s r) as [ms|] eqn:M; [|discriminate].
+  cbn [locate]. rewrite (members_r_forward_app s nd r ms M).
+  destruct p as [|k1 p1]; [exact H|].
+  destruct (mlookup k0 ms) as [x|]; [|discriminate]. apply IH. exact H.
+Qed.
+
+Lemma write_member_target : forall s c k v s', write_member s c k v = Ok s' ->
+  forall a n, getn s a = Some n -> exists n', getn s' a = Some n' /\ ntarget n' = ntarget n.
+Proof.
+  intros s c k v s' W a n G.
+  assert (Hupd : forall s0 i f, (forall m, ntarget (f m) = ntarget m) -> forall n0, getn s0 a = Some n0 ->
+             exists n', getn (upd_state s0 i f) a = Some n' /\ ntarget n' = ntarget n0).
+  { intros s0 i f Hf n0 G0. rewrite getn_upd. destruct (Nat.eqb i a).
+    - rewrite G0. simpl. eexists. split; [reflexivity|apply Hf].
+    - exists n0. auto. }
+  unfold write_member in W. destruct c as [|i].
+  - inversion W; subst s'. change (mkState (upd (heap s) v with_mc) (mput k v (root s))) with (link_root s k v).
+    rewrite getn_link_root. destruct (Nat.eqb v a).
+    + rewrite G. simpl. eexists. split; reflexivity.
+    + exists n. auto.
+  - destruct (Hupd s i (fun n0 => with_members (mput k v (nmembers n0)) n0) (fun _ => eq_refl) n G) as [n1 [G1 T1]].
+    destruct (Hupd _ v (with_parent (Some i)) (fun _ => eq_refl) n1 G1) as [n2 [G2 T2]].
+    assert (Hend : forall s2, update_target_aliases
+                (upd_state (upd_state s i (fun n0 => with_members (mput k v (nmembers n0)) n0)) v (with_parent (Some i))) v = Ok s2 ->
+              exists n', getn s2 a = Some n' /\ ntarget n' = ntarget n).
+    { intros s2 U. unfold update_target_aliases in U.
+      destruct (getn _ v) as [vn|]; [|inversion U; subst s2; exists n2; split; auto; congruence].
+      destruct (ntarget vn) as [t|]; [|inversion U; subst s2; exists n2; split; auto; congruence].
+      destruct (path_of _ v); inversion U; subst s2; try (exists n2; split; auto; congruence).
+      unfold add_backref. destruct (Hupd _ t (fun tn => with_aliases (aput p v (naliases tn)) tn) (fun _ => eq_refl) n2 G2) as [n3 [G3 T3]].
+      exists n3. split; auto. congruence. }
+    destruct (kind_of s v) as [[| | | |]|]; try (inversion W; subst s'; exists n2; split; auto; congruence).
+    apply Hend. exact W.
+Qed.
+
+Theorem alias_follows_replacement : forall s r p k t s' c key m,
+  Inv s -> step s (ONew Producer r p k t) = (s', None) ->
+  locate s r p = Ok (c, key) -> get_at s c key = Ok m -> kind_of s m <> Some KAli ->
+  forall q a n, get s RRoot q = Ok a -> getn s a = Some n -> ntarget n = Some m ->
+  exists n', getn s' a = Some n' /\ ntarget n' = Some (List.length (heap s)).
+Proof.
+  intros s r p k t s' c key m [HI HA] H Lc Gm Km q a n Gq Ga Ta.
+  simpl in H. destruct (recv_exists s r); simpl in H; [|discriminate].
+  destruct (alloc s k (last p "") t) as [s1 e] eqn:Al.
+  apply alloc_cases in Al. destruct Al as [[E1 E2]|[E1 [nd [E2 [P [M [N [K [AL T]]]]]]]]].
+  { destruct e; [discriminate|congruence]. }
+  subst e. set (v := List.length (heap s)) in *.
+  destruct (SInv_app s nd HI P M) as [HI1 D1]. rewrite <- E2 in HI1, D1. fold v in D1.
+  assert (Gv : getn s1 v = Some nd) by (subst s1; apply getn_app_last).
+  unfold set_value in H. rewrite Gv in H.
+  assert (Lc1 : locate s1 r p = Ok (c, key)) by (subst s1; apply locate_forward_app; exact Lc).
+  rewrite Lc1 in H.
+  unfold get_at in Gm. destruct (members_r s c) as [ms|] eqn:Mc; [|discriminate].
+  destruct (mlookup key ms) as [m0|] eqn:Lm; [|discriminate]. inversion Gm; subst m0. clear Gm.
+  assert (Mc1 : members_r s1 c = Ok ms) by (subst s1; apply members_r_forward_app; exact Mc).
+  rewrite Mc1, Lm in H.
+  (* the replaced member exists *)
+  destruct (a_back s HA q a n m Gq Ga Ta) as [mn [Gmn Lk]].
+  assert (Gmn1 : getn s1 m = Some mn).
+  { subst s1. rewrite getn_app_lt by (eapply getn_lt; eauto). exact Gmn. }
+  unfold replace_prelude in H. rewrite Gmn1, Gv in H.
+  assert (Am : is_ali (nkind mn) = false).
+  { unfold kind_of in Km. rewrite Gmn in Km. simpl in Km. destruct (nkind mn); auto. congruence. }
+  rewrite Am in H.
+  destruct (is_mod (nkind mn) && is_ali (nkind nd)); [discriminate|].
+  destruct (retarget_all s1 (map snd (naliases mn)) v) as [s2 e1] eqn:R.
+  destruct e1 as [e1|]; [discriminate|].
+  destruct (write_member s2 c key v) as [s3|e3] eqn:W; [|discriminate]. inversion H; subst s3. clear H.
+  assert (Hin : In a (map snd (naliases mn))).
+  { apply alookup_In in Lk. apply in_map_iff. exists (q, a). auto. }
+  assert (Ha2 : exists n2, getn s2 a = Some n2 /\ ntarget n2 = Some v).
+  { apply (retarget_all_sets v (map snd (naliases mn)) s1 s2 R); auto.
+    intros a0 s0 Hin0 HS0. apply set_target_not_cyclic.
+    - apply in_map_iff in Hin0. destruct Hin0 as [[p0 a1] [E Hin0]]. simpl in E. subst a1.
+      destruct (a_key s HA m mn p0 a0 Gmn Hin0) as [_ Ka0]. unfold kind_of in Ka0.
+      destruct (getn s a0) eqn:G0; [|discriminate]. apply getn_lt in G0. unfold v. lia.
+    - intros vp Pv. rewrite <- (skel_eq_path s1 s0 HS0) in Pv.
+      rewrite (path_of_unfold s1 v nd (s_par s1 HI1) Gv) in Pv. unfold node_path in Pv. rewrite P in Pv.
+      destruct (is_ali (nkind nd)); [discriminate|]. inversion Pv. reflexivity. }
+  destruct Ha2 as [n2 [G2 T2]].
+  destruct (write_member_target s2 c key v s' W a n2 G2) as [n' [G' T']].
+  exists n'. split; auto. congruence.
+Qed.
+
+(* ================================================================ J. refinement to the reference dictionary path -> object *)
+
+Lemma is_prefix_app : forall P q, is_prefix P (P ++ q) = true.
+Proof. induction P as [|a P IH]; intro q; simpl; auto. rewrite String.eqb_refl. simpl. apply IH. Qed.
+
+Lemma is_prefix_refl : forall P, is_prefix P P = true.
+Proof. intro P. rewrite <- (app_nil_r P) at 2. apply is_prefix_app. Qed.
+
+Lemma is_prefix_spec : forall P q, is_prefix P q = true -> exists q', q = P ++ q'.
+Proof.
+  induction P as [|a P IH]; intros q H; simpl in *; [exists q; reflexivity|].
+  destruct q as [|b q]; [discriminate|]. apply andb_true_iff in H. destruct H as [H1 H2].
+  apply String.eqb_eq in H1. subst b. destruct (IH q H2) as [q' E]. exists q'. simpl. congruence.
+Qed.
+
+Lemma is_prefix_app_r : forall P q l, is_prefix P q = true -> is_prefix P (q ++ l) = true.
+Proof.
+  intros P q l H. apply is_prefix_spec in H. destruct H as [q' E]. subst q. rewrite <- app_assoc. apply is_prefix_app.
+Qed.
+
+Lemma locate_get : forall s p r c k, locate s r p = Ok (c, k) ->
+  exists pre, p = pre ++ [k] /\ ((pre = [] /\ c = r) \/ (pre <> [] /\ exists i, c = RObj i /\ get s r pre = Ok i)).
+Proof.
+  intros s p. induction p as [|k0 p IH]; intros r c k H; simpl in H; [discriminate|].
+  destruct (members_r s r) as [ms|] eqn:M; [|discriminate].
+  destruct p as [|k1 p1].
+  - inversion H; subst. exists []. split; auto.
+  - destruct (mlookup k0 ms) as [x|] eqn:L; [|discriminate].
+    destruct (IH (RObj x) c k H) as [pre [E [[E1 E2]|[N [i [E2 G]]]]]].
+    + subst pre c. exists [k0]. split; [simpl in *; congruence|]. right. split; [discriminate|].
+      exists x. split; auto. cbn [get]. rewrite M, L. reflexivity.
+    + exists (k0 :: pre). split; [simpl; congruence|]. right. split; [discriminate|].
+      exists i. split; auto. cbn [get]. rewrite M, L. destruct pre; [congruence|exact G].
+Qed.
+
+(* s' differs from s only in what the single dictionary entry (c, k) holds *)
+Definition only_entry_changed (s s' : state) (c : recv) (k : name) : Prop :=
+  (forall k', (c = RRoot /\ k' = k) \/ mlookup k' (root s') = mlookup k' (root s)) /\
+  (forall j n, getn s j = Some n -> exists n', getn s' j = Some n' /\ is_ali (nkind n') = is_ali (nkind n) /\
+      forall k', (c = RObj j /\ k' = k) \/ mlookup k' (nmembers n') = mlookup k' (nmembers n)).
+
+Definition entry_path (s : state) (c : recv) (k : name) (P : path) : Prop :=
+  match c with
+  | RRoot => P = [k]
+  | RObj i => exists pi, get s RRoot pi = Ok i /\ P = pi ++ [k]
+  end.
+
+Lemma get_forward : forall s s' c k P, SInv s -> only_entry_changed s s' c k -> entry_path s c k P ->
+  forall q x, get s RRoot q = Ok x -> is_prefix P q = false -> get s' RRoot q = Ok x.
+Proof.
+  intros s s' c k P HI [HR HN] HP q. induction q as [|kq q0 IH] using rev_ind; intros x H Hpre; [simpl in H; discriminate|].
+  destruct q0 as [|k1 q1].
+  - (* a member of the collection *)
+    simpl in *. destruct (mlookup kq (root s)) as [y|] eqn:L; [|discriminate]. inversion H; subst y.
+    destruct (HR kq) as [[Ec Ek]|E].
+    + subst c kq. simpl in HP. subst P. simpl in Hpre. rewrite String.eqb_refl in Hpre. discriminate.
+    + rewrite E, L. reflexivity.
+  - assert (Hq0 : k1 :: q1 <> []) by discriminate.
+    set (q0 := k1 :: q1) in *.
+    rewrite get_app in H by (auto; discriminate).
+    destruct (get s RRoot q0) as [c0|] eqn:G0; [|discriminate].
+    assert (Hp0 : is_prefix P q0 = false).
+    { destruct (is_prefix P q0) eqn:E; auto. rewrite (is_prefix_app_r P _ [kq] E) in Hpre. discriminate. }
+    pose proof (IH c0 eq_refl Hp0) as G0'.
+    rewrite get_app by (auto; discriminate). rewrite G0'.
+    rewrite get_single in H. rewrite get_single. unfold get_at in *.
+    destruct (members_r s (RObj c0)) as [ms|] eqn:M; [|discriminate].
+    apply members_r_obj in M. destruct M as [n0 [Gc [A0 Em]]]. subst ms.
+    destruct (mlookup kq (nmembers n0)) as [y|] eqn:L; [|discriminate]. inversion H; subst y.
+    destruct (HN c0 n0 Gc) as [n0' [Gc' [A' Hm]]]. simpl. rewrite Gc', A', A0.
+    destruct (Hm kq) as [[Ec Ek]|E].
+    + subst c kq. simpl in HP. destruct HP as [pi [Gpi EP]].
+      pose proof (get_functional_path s HI _ _ _ G0 Gpi) as Epi. subst pi P.
+      rewrite is_prefix_refl in Hpre. discriminate.
+    + rewrite E, L. reflexivity.
+Qed.
+
+Lemma get_backward_app : forall s nd, SInv s -> nparent nd = None -> nmembers nd = [] ->
+  forall p x, get (mkState (heap s ++ [nd]) (root s)) RRoot p = Ok x -> get s RRoot p = Ok x.
+Proof.
+  intros s nd HI P M p x H. destruct (SInv_app s nd HI P M) as [HI1 D1].
+  pose proof (get_not_detached _ _ D1 p RRoot x H) as Hx.
+  apply (get_backward s (mkState (heap s ++ [nd]) (root s)) (fun y => y = List.length (heap s))) with (r := RRoot);
+    [ | | | exact I | exact H | exact Hx].
+  - intros k y L. right. exact L.
+  - intros i n' G' Hi A'. apply getn_app_old in G'. destruct G' as [[_ G']|[E _]]; [|contradiction].
+    exists n'. repeat split; auto.
+  - intros i n' Hi G'. subst i. rewrite getn_app_last in G'. inversion G'; subst. exact M.
+Qed.
+
+Lemma get_backward_link_obj : forall s i cn k v vn, getn s i = Some cn -> i <> v -> getn s v = Some vn -> nmembers vn = [] ->
+  forall p x, get (link_obj s i k v) RRoot p = Ok x -> x <> v -> get s RRoot p = Ok x.
+Proof.
+  intros s i cn k v vn Gi Hne Gv Mv p x H Hx.
+  apply (get_backward s (link_obj s i k v) (fun y => y = v)) with (r := RRoot); [ | | | exact I | exact H | exact Hx].
+  - intros k' y L. right. exact L.
+  - intros j n' G' Hj A'. rewrite getn_link_obj in G' by auto.
+    apply Nat.eqb_neq in Hj. rewrite Hj in G'. destruct (Nat.eqb j i) eqn:Eji.
+    + apply Nat.eqb_eq in Eji. subst j. rewrite Gi in G'. simpl in G'. inversion G'; subst n'. simpl in *.
+      exists cn. repeat split; auto. intros k' y L. destruct (String.eqb k' k) eqn:Ek.
+      * apply String.eqb_eq in Ek. subst k'. rewrite mlookup_put_same in L. inversion L. left. reflexivity.
+      * apply String.eqb_neq in Ek. rewrite mlookup_put_other in L by auto. right. exact L.
+    + exists n'. repeat split; auto.
+  - intros j n' Hj G'. subst j. rewrite getn_link_obj in G' by auto. rewrite Nat.eqb_refl in G'.
+    rewrite Gv in G'. simpl in G'. inversion G'; subst n'. simpl. exact Mv.
+Qed.
+
+Lemma get_backward_link_root : forall s k v vn, getn s v = Some vn -> nmembers vn = [] ->
+  forall p x, get (link_root s k v) RRoot p = Ok x -> x <> v -> get s RRoot p = Ok x.
+Proof.
+  intros s k v vn Gv Mv p x H Hx.
+  apply (get_backward s (link_root s k v) (fun y => y = v)) with (r := RRoot); [ | | | exact I | exact H | exact Hx].
+  - intros k' y L. unfold link_root in L. simpl in L. destruct (String.eqb k' k) eqn:Ek.
+    + apply String.eqb_eq in Ek. subst k'. rewrite mlookup_put_same in L. inversion L. left. reflexivity.
+    + apply String.eqb_neq in Ek. rewrite mlookup_put_other in L by auto. right. exact L.
+  - intros j n' G' Hj A'. rewrite getn_link_root in G'. destruct (Nat.eqb v j).
+    + destruct (getn s j) as [n|]; simpl in G'; [|discriminate]. inversion G'; subst n'. exists n. repeat split; auto.
+    + exists n'. repeat split; auto.
+  - intros j n' Hj G'. subst j. rewrite getn_link_root, Nat.eqb_refl, Gv in G'. simpl in G'. inversion G'; subst n'. exact Mv.
+Qed.
+
+Lemma get_backward_unlink : forall s c k p x, get (unlink s c k) RRoot p = Ok x -> get s RRoot p = Ok x.
+Proof.
+  intros s c k p x H.
+  apply (get_backward s (unlink s c k) (fun _ => False)) with (r := RRoot); [ | | | exact I | exact H | tauto].
+  - intros k' y L. right. destruct c; simpl in L; auto. apply mlookup_del_Some in L. exact L.
+  - intros i n' G _ A. destruct c as [|j]; simpl in G.
+    + exists n'. repeat split; auto.
+    + rewrite getn_upd in G. destruct (Nat.eqb j i).
+      * destruct (getn s i) as [n|]; simpl in G; [|discriminate]. inversion G; subst n'. simpl in *.
+        exists n. repeat split; auto. intros k' y L. right. apply mlookup_del_Some in L. exact L.
+      * exists n'. repeat split; auto.
+  - intros i n' [].
+Qed.
+
+Lemma only_entry_unlink : forall s c k, only_entry_changed s (unlink s c k) c k.
+Proof.
+  intros s c k. split.
+  - intro k'. destruct c as [|i]; simpl; [|right; reflexivity].
+    destruct (String.eqb k' k) eqn:E.
+    + apply String.eqb_eq in E. left. auto.
+    + apply String.eqb_neq in E. right. apply mlookup_del_other. exact E.
+  - intros j n G. destruct c as [|i]; simpl.
+    + exists n. repeat split; auto.
+    + rewrite getn_upd. destruct (Nat.eqb i j) eqn:Eij.
+      * apply Nat.eqb_eq in Eij. subst j. rewrite G. simpl. eexists. split; [reflexivity|]. simpl. split; auto.
+        intro k'. destruct (String.eqb k' k) eqn:E.
+        -- apply String.eqb_eq in E. left. auto.
+        -- apply String.eqb_neq in E. right. apply mlookup_del_other. exact E.
+      * exists n. repeat split; auto.
+Qed.
+
+Lemma locate_entry_path : forall s P c k, locate s RRoot P = Ok (c, k) -> entry_path s c k P.
+Proof.
+  intros s P c k H. destruct (locate_get s P RRoot c k H) as [pre [E [[E1 E2]|[N [i [E2 G]]]]]].
+  - subst pre c. simpl. exact E.
+  - subst c. simpl. exists pre. auto.
+Qed.
+
+Lemma dict_agree : forall s s' q,
+  (forall x, get s RRoot q = Ok x -> get s' RRoot q = Ok x) ->
+  (forall x, get s' RRoot q = Ok x -> get s RRoot q = Ok x) ->
+  dict_of s' q = dict_of s q.
+Proof.
+  intros s s' q F B. unfold dict_of.
+  destruct (get s' RRoot q) as [x|] eqn:G'.
+  - rewrite (B x eq_refl). reflexivity.
+  - destruct (get s RRoot q) as [y|] eqn:G; auto. pose proof (F y eq_refl) as X. discriminate X.
+Qed.
+
+Theorem refines_dict_del : forall s a P s', Inv s -> step s (ODel a RRoot P) = (s', None) ->
+  forall q, dict_of s' q = dict_del P (dict_of s) q.
+Proof.
+  intros s a P s' [HI _] H q. simpl in H. apply del_value_shape in H. destruct H as [c [k [Lc E]]]. subst s'.
+  unfold dict_del. destruct (is_prefix P q) eqn:Ep.
+  - apply is_prefix_spec in Ep. destruct Ep as [q' Eq]. subst q.
+    pose proof (deleted_gone_gen s c k P RRoot Lc) as Hg. unfold dict_of.
+    destruct q' as [|k1 q1]; [rewrite app_nil_r, Hg; reflexivity|].
+    assert (P <> []) by (intro; subst P; simpl in Lc; discriminate).
+    rewrite get_app by (auto; discriminate). rewrite Hg. reflexivity.
+  - apply dict_agree.
+    + intros x G. apply (get_forward s (unlink s c k) c k P HI (only_entry_unlink s c k) (locate_entry_path s P c k Lc)); auto.
+    + intros x G. eapply get_backward_unlink; eauto.
+Qed.
+
+(* the operations on aliases do not touch the dictionary *)
+Theorem refines_dict_alias_ops : forall s o, (exists a, o = OResolve a) \/ (exists a v, o = OSetTarget a v) ->
+  forall q, dict_of (fst (step s o)) q = dict_of s q.
+Proof.
+  intros s o H q. unfold dict_of.
+  assert (HS : skel_eq s (fst (step s o))).
+  { destruct H as [[a E]|[a [v E]]]; subst o; simpl.
+    - apply skel_eq_resolve.
+    - destruct (set_target s a v) as [s'|e] eqn:E; simpl; [eapply skel_eq_set_target; eauto | apply skel_eq_refl]. }
+  rewrite <- (skel_eq_get s _ HS). reflexivity.
+Qed.
+
+Lemma is_prefix_shorter : forall pi k, is_prefix (pi ++ [k]) pi = false.
+Proof.
+  intros pi k. destruct (is_prefix (pi ++ [k]) pi) eqn:E; auto.
+  apply is_prefix_spec in E. destruct E as [q' E]. apply (f_equal (@List.length name)) in E.
+  rewrite !app_length in E. simpl in E. lia.
+Qed.
+
+Lemma set_value_ok_shape : forall s a r p v s', set_value s a r p v = (s', None) ->
+  exists c k s2, locate s r p = Ok (c, k) /\ skel_eq s s2 /\ write_member s2 c k v = Ok s'.
+Proof.
+  intros s a r p v s' H. unfold set_value in H.
+  destruct (getn s v); [|discriminate].
+  destruct (locate s r p) as [[c k]|e] eqn:Lc; [|discriminate].
+  destruct (members_r s c) as [ms|e]; [|discriminate].
+  assert (Hpost : forall s1 e1, skel_eq s s1 ->
+     match e1 with
+     | Some e => (s1, Some e)
+     | None => match write_member s1 c k v with Ok s2 => (s2, None) | Err e => (s1, Some e) end
+     end = (s', None) -> exists c0 k0 s2, Ok (c, k) = Ok (c0, k0) /\ skel_eq s s2 /\ write_member s2 c0 k0 v = Ok s').
+  { intros s1 e1 H1 H2. destruct e1; [discriminate|].
+    destruct (write_member s1 c k v) as [s2|e] eqn:W; [|discriminate]. inversion H2; subst s2.
+    exists c, k, s1. auto. }
+  destruct a.
+  - destruct (mlookup k ms) as [m|].
+    + pose proof (skel_eq_replace_prelude s m v) as Hp. destruct (replace_prelude s m v) as [s1 e1]. simpl in Hp.
+      exact (Hpost s1 e1 Hp H).
+    + exact (Hpost s None (skel_eq_refl s) H).
+  - destruct (mlookup k ms); exact (Hpost s None (skel_eq_refl s) H).
+Qed.
+
+Lemma only_entry_link_obj : forall s i cn k v vn, getn s i = Some cn -> i <> v -> getn s v = Some vn ->
+  only_entry_changed s (link_obj s i k v) (RObj i) k.
+Proof.
+  intros s i cn k v vn Gi Hne Gv. split.
+  - intro k'. right. reflexivity.
+  - intros j n G. rewrite getn_link_obj by auto. destruct (Nat.eqb j v) eqn:E1.
+    + apply Nat.eqb_eq in E1. subst j. rewrite G. simpl. eexists. split; [reflexivity|]. simpl. split; auto.
+    + destruct (Nat.eqb j i) eqn:E2.
+      * apply Nat.eqb_eq in E2. subst j. rewrite G. simpl. eexists. split; [reflexivity|]. simpl. split; auto.
+        intro k'. destruct (String.eqb k' k) eqn:E.
+        -- apply String.eqb_eq in E. left. auto.
+        -- apply String.eqb_neq in E. right. apply mlookup_put_other. exact E.
+      * exists n. repeat split; auto.
+Qed.
+
+Lemma only_entry_link_root : forall s k v, only_entry_changed s (link_root s k v) RRoot k.
+Proof.
+  intros s k v. split.
+  - intro k'. unfold link_root. simpl. destruct (String.eqb k' k) eqn:E.
+    + apply String.eqb_eq in E. left. auto.
+    + apply String.eqb_neq in E. right. apply mlookup_put_other. exact E.
+  - intros j n G. rewrite getn_link_root. destruct (Nat.eqb v j).
+    + rewrite G. simpl. eexists. split; [reflexivity|]. simpl. split; auto.
+    + exists n. repeat split; auto.
+Qed.
+
+Theorem refines_dict_new : forall s a P k t s', Inv s -> top_down s (ONew a RRoot P k t) = true ->
+  step s (ONew a RRoot P k t) = (s', None) ->
+  forall q, dict_of s' q = dict_set P (List.length (heap s)) (dict_of s) q.
+Proof.
+  intros s a P k t s' HInv Htd H q. pose proof HInv as [HI HA].
+  assert (HI' : SInv s').
+  { pose proof (inv_step s _ HInv Htd) as [X _]. rewrite H in X. exact X. }
+  simpl in H.
+  destruct (alloc s k (last P "") t) as [s1 e] eqn:Al.
+  apply alloc_cases in Al. destruct Al as [[E1 E2]|[E1 [nd [E2 [Pn [M [N [K [AL T]]]]]]]]].
+  { destruct e; [discriminate|congruence]. }
+  subst e. set (v := List.length (heap s)) in *.
+  destruct (SInv_app s nd HI Pn M) as [HI1 D1]. rewrite <- E2 in HI1, D1. fold v in D1.
+  apply set_value_ok_shape in H. destruct H as [c [key [s2 [Lc [HS W]]]]].
+  pose proof (skel_eq_SInv s1 s2 HS HI1) as HI2.
+  pose proof (Detached_skel_eq s1 s2 v HS D1) as D2.
+  destruct (d_node s2 v D2) as [vn2 [Gv2 [Pv2 Mv2]]].
+  rewrite (skel_eq_locate s1 s2 HS) in Lc.
+  pose proof (locate_entry_path s2 P c key Lc) as EP.
+  assert (PneE : P <> []) by (intro; subst P; simpl in Lc; discriminate).
+  (* s3: the linked state, up to the skeleton *)
+  assert (exists s3, skel_eq s3 s' /\ only_entry_changed s2 s3 c key /\
+            (forall p x, get s3 RRoot p = Ok x -> x <> v -> get s2 RRoot p = Ok x) /\
+            get s3 RRoot P = Ok v /\
+            (forall q', q' <> [] -> exists e, get s3 (RObj v) q' = Err e)) as [s3 [HS3 [OE [BW [GP GV]]]]].
+  { apply write_member_shape in W. destruct c as [|i].
+    - subst s'. exists (link_root s2 key v). split; [apply skel_eq_refl|]. split; [apply only_entry_link_root|].
+      split; [intros p x; apply (get_backward_link_root s2 key v vn2 Gv2 Mv2)|]. split.
+      + simpl in EP. subst P. cbn [get]. simpl. rewrite mlookup_put_same. reflexivity.
+      + intros q' Hq'. destruct q' as [|k1 q1]; [congruence|]. cbn [get]. simpl.
+        rewrite getn_link_root, Nat.eqb_refl, Gv2. simpl.
+        destruct (is_ali (nkind vn2)); [eexists; reflexivity|]. rewrite Mv2. simpl. eexists; reflexivity.
+    - pose proof (locate_not_detached s2 v D2 P RRoot i key) as Hiv.
+      assert (Hne : i <> v) by (apply Hiv; [discriminate|exact Lc]).
+      destruct (locate_members s2 P RRoot (RObj i) key Lc) as [ms Mi]. apply members_r_obj in Mi.
+      destruct Mi as [cn [Gi [Ai _]]].
+      exists (link_obj s2 i key v). split; [exact W|]. split; [eapply only_entry_link_obj; eauto|].
+      split; [intros p x; apply (get_backward_link_obj s2 i cn key v vn2 Gi Hne Gv2 Mv2)|]. split.
+      + simpl in EP. destruct EP as [pi [Gpi EPP]]. subst P.
+        assert (pi <> []) by (intro; subst pi; simpl in Gpi; discriminate).
+        rewrite get_app by (auto; discriminate).
+        rewrite (get_forward s2 (link_obj s2 i key v) (RObj i) key (pi ++ [key]) HI2
+                   (only_entry_link_obj s2 i cn key v vn2 Gi Hne Gv2) (ex_intro _ pi (conj Gpi eq_refl)) pi i Gpi
+                   (is_prefix_shorter pi key)).
+        cbn [get]. simpl. rewrite getn_link_obj by auto.
+        assert (E : Nat.eqb i v = false) by (apply Nat.eqb_neq; auto). rewrite E, Nat.eqb_refl, Gi. simpl.
+        rewrite Ai. rewrite mlookup_put_same. reflexivity.
+      + intros q' Hq'. destruct q' as [|k1 q1]; [congruence|]. cbn [get]. simpl.
+        rewrite getn_link_obj by auto. rewrite Nat.eqb_refl, Gv2. simpl.
+        destruct (is_ali (nkind vn2)); [eexists; reflexivity|]. rewrite Mv2. simpl. eexists; reflexivity. }
+  pose proof (skel_eq_SInv s' s3 (skel_eq_sym _ _ HS3) HI') as HI3.
+  assert (Hs' : forall p, get s' RRoot p = get s3 RRoot p) by (intro p; symmetry; apply skel_eq_get; exact HS3).
+  assert (Hs2 : forall p x, get s2 RRoot p = Ok x <-> get s RRoot p = Ok x).
+  { intros p x. rewrite <- (skel_eq_get s1 s2 HS). subst s1. split.
+    - apply get_backward_app; auto.
+    - apply get_forward_app. }
+  unfold dict_set. destruct (path_eqb q P) eqn:Eq.
+  - apply path_eqb_eq in Eq. subst q. unfold dict_of. rewrite Hs', GP. reflexivity.
+  - destruct (is_prefix P q) eqn:Ep.
+    + apply is_prefix_spec in Ep. destruct Ep as [q' Eq']. subst q.
+      assert (q' <> []) by (intro; subst q'; rewrite app_nil_r in Eq; rewrite path_eqb_refl in Eq; discriminate).
+      unfold dict_of. rewrite Hs'. rewrite get_app by auto. rewrite GP.
+      destruct (GV q' H) as [e0 Ge]. rewrite Ge. reflexivity.
+    + unfold dict_of at 1. rewrite Hs'. fold (dict_of s3 q).
+      transitivity (dict_of s2 q).
+      * apply dict_agree.
+        -- intros x G. apply (get_forward s2 s3 c key P HI2 OE EP); auto.
+        -- intros x G. apply BW; auto. intro Ex. subst x.
+           pose proof (get_functional_path s3 HI3 _ _ _ G GP) as Eqp. subst q. rewrite path_eqb_refl in Eq. discriminate.
+      * apply dict_agree; intros x G; apply Hs2; exact G.
+Qed.
+
+Lemma set_value_err_skel : forall s a r p v s' e, set_value s a r p v = (s', Some e) -> skel_eq s s'.
+Proof.
+  intros s a r p v s' e H. unfold set_value in H.
+  destruct (getn s v); [|inversion H; apply skel_eq_refl].
+  destruct (locate s r p) as [[c k]|e0]; [|inversion H; apply skel_eq_refl].
+  destruct (members_r s c) as [ms|e0]; [|inversion H; apply skel_eq_refl].
+  assert (Hpost : forall s1 e1, skel_eq s s1 ->
+     match e1 with
+     | Some e => (s1, Some e)
+     | None => match write_member s1 c k v with Ok s2 => (s2, None) | Err e => (s1, Some e) end
+     end = (s', Some e) -> skel_eq s s').
+  { intros s1 e1 H1 H2. destruct e1; [inversion H2; subst; exact H1|].
+    destruct (write_member s1 c k v); inversion H2; subst. exact H1. }
+  destruct a.
+  - destruct (mlookup k ms) as [m|].
+    + pose proof (skel_eq_replace_prelude s m v) as Hp. destruct (replace_prelude s m v) as [s1 e1]. simpl in Hp.
+      exact (Hpost s1 e1 Hp H).
+    + exact (Hpost s None (skel_eq_refl s) H).
+  - destruct (mlookup k ms); exact (Hpost s None (skel_eq_refl s) H).
+Qed.
+
+(* a rejected insertion leaves the dictionary as it was *)
+Theorem refines_dict_new_rejected : forall s a r P k t s' e, Inv s -> step s (ONew a r P k t) = (s', Some e) ->
+  forall q, dict_of s' q = dict_of s q.
+Proof.
+  intros s a r P k t s' e [HI _] H q. simpl in H.
+  destruct (recv_exists s r); simpl in H; [|inversion H; reflexivity].
+  destruct (alloc s k (last P "") t) as [s1 e1] eqn:Al.
+  apply alloc_cases in Al. destruct Al as [[E1 E2]|[E1 [nd [E2 [Pn [M _]]]]]].
+  - subst s1. destruct e1; [inversion H; reflexivity|congruence].
+  - subst e1. apply set_value_err_skel in H.
+    apply dict_agree.
+    + intros x G. rewrite <- (skel_eq_get s1 s' H). subst s1. apply get_forward_app. exact G.
+    + intros x G. rewrite <- (skel_eq_get s1 s' H) in G. subst s1. eapply get_backward_app; eauto.
 Qed.
